@@ -298,14 +298,16 @@ Definition sids_all (P : str -> Prop) (m : mgr) : Prop :=
   (forall ns l sid, In (ns, l) (pending m) -> In sid l -> P sid) /\
   (forall sid slot, In (sid, slot) (callbacks m) -> P sid).
 Definition pending_nonempty (m : mgr) : Prop := forall ns l, In (ns, l) (pending m) -> l <> [].
-Definition Inv (s : srv) : Prop :=
-  MOK (mg s) /\ sids_all (below (fresh s)) (mg s) /\ pending_nonempty (mg s).
+Definition ns_nonempty (m : mgr) : Prop := forall ns, In ns (map fst (rooms m)) -> ns <> [].
+Definition MI (n : N) (m : mgr) : Prop :=
+  MOK m /\ sids_all (below n) m /\ pending_nonempty m /\ ns_nonempty m.
+Definition Inv (s : srv) : Prop := MI (fresh s) (mg s).
 
 Lemma Inv_init : Inv srv_init.
 Proof.
   split; [apply MOK_init|]. split.
   - split; [intros ? ? ? ? ? ? []|]. split; [intros ? ? ? []|intros ? ? []].
-  - intros ? ? [].
+  - split; [intros ? ? []|intros ? []].
 Qed.
 
 Lemma not_below_self n : ~ below n (sid_name n).
@@ -401,7 +403,7 @@ Proof.
   intros Hm Hin. apply in_all_sids in Hin as (rm & b & Hin & Hb & Hse).
   destruct Hm as [Hnd Hok]. pose proof (sin_aget _ _ _ Hnd Hin) as Hns.
   unfold eio_from_sid. rewrite room_of_none. unfold ns_rooms. rewrite Hns, Hb.
-  apply sin_aget; [|exact Hse]. destruct (Hok _ _ Hin) as [_ Hk]. exact (Hk _ Hb).
+  apply sin_aget; [|exact Hse]. destruct (Hok _ _ Hin) as [_ Hk]. exact (proj1 (Hk _ Hb)).
 Qed.
 Lemma eio_all_sids m ns sid e : eio_from_sid m sid ns = Some e -> In (ns, sid, e) (all_sids m).
 Proof.
@@ -672,7 +674,7 @@ Section Connect.
       + rewrite pre_disconnect_callbacks. exact Hcb1.
       + rewrite <- Hp1. apply pending_roundtrip.
         * rewrite (is_pending_cong _ _ _ _ Hp1). apply (fresh_not_pending s HI).
-        * rewrite Hp1. intro Habs. apply saget_in in Habs. destruct HI as (_ & _ & Hpn). exact (Hpn _ _ Habs eq_refl).
+        * rewrite Hp1. intro Habs. apply saget_in in Habs. destruct HI as (_ & _ & Hpn & _). exact (Hpn _ _ Habs eq_refl).
       + repeat (split; [assumption|]). repeat split; reflexivity.
     - destruct (Hmain (mg s1) Hm1 eq_refl Hcb1) as (A & B & C & D & E & F).
       + unfold pending_after. assert (Hnp : is_pending (mg s1) sid ns = false).
@@ -874,4 +876,1529 @@ Theorem no_second_call c s sid pn :
 Proof.
   intro H. split; [apply api_disconnect_noop; exact H|].
   intros eio reason [Hs|Hs]; apply handle_disconnect_noop; rewrite Hs; [exact H|reflexivity].
+Qed.
+
+(* ------------------------------------------------------------------ *)
+(* primitive state transitions: every operation is a sequence of them  *)
+(* ------------------------------------------------------------------ *)
+Definition in_rooms (m : mgr) (sid : str) : Prop :=
+  exists ns rm room b e, In (ns, rm) (rooms m) /\ In (room, b) rm /\ In (sid, e) b.
+
+Inductive prim : srv -> srv -> Prop :=
+| P_other s env bp se lv : prim s (mkSrv (mg s) env bp se lv (fresh s))
+| P_leave s sid ns room : prim s (upd_mg s (leave_room (mg s) sid ns room))
+| P_enter s sid ns room : prim s (upd_mg s (fst (enter_room (mg s) sid ns room)))
+| P_close s room ns : prim s (upd_mg s (close_room (mg s) room ns))
+| P_disc s sid ns : prim s (upd_mg s (mgr_disconnect (mg s) sid ns))
+| P_pre s sid ns : in_rooms (mg s) sid \/ below (fresh s) sid -> prim s (upd_mg s (fst (pre_disconnect (mg s) sid ns)))
+| P_ack s sid cb : in_rooms (mg s) sid -> prim s (upd_mg s (fst (generate_ack_id (mg s) sid cb)))
+| P_cb s osid id : prim s (upd_mg s (fst (trigger_callback (mg s) osid id)))
+| P_conn s eio ns : ns <> [] -> prim s (upd_mg (bump s) (fst (mgr_connect (mg s) eio ns (new_sid s)))).
+
+Inductive star : srv -> srv -> Prop :=
+| star_refl s : star s s
+| star_step s s1 s2 : prim s s1 -> star s1 s2 -> star s s2.
+Lemma star_trans a b d : star a b -> star b d -> star a d.
+Proof. induction 1; [auto|]. intro H2. eapply star_step; eauto. Qed.
+Lemma star_one a b : prim a b -> star a b.
+Proof. intro H. eapply star_step; [exact H|apply star_refl]. Qed.
+
+Definition st {A} (x : srv * list eff * Res A) : srv := fst (fst x).
+Definition reach_at {A} (m : SM A) (s : srv) : Prop := star s (st (m s)).
+Definition reach {A} (m : SM A) : Prop := forall s, reach_at m s.
+
+Lemma reach_ret {A} (a : A) : reach (ret a). Proof. intro s. apply star_refl. Qed.
+Lemma reach_raise {A} x : reach (@raise srv eff A x). Proof. intro s. apply star_refl. Qed.
+Lemma reach_lift {A} (r : Res A) : reach (lift r). Proof. intro s. apply star_refl. Qed.
+Lemma reach_tell e : reach (@tell srv eff e). Proof. intro s. apply star_refl. Qed.
+
+Lemma reach_at_bind {A B} (m : SM A) (k : A -> SM B) s :
+  reach_at m s -> (forall a s1 e1, m s = (s1, e1, Ok a) -> reach_at (k a) s1) -> reach_at (bindM m k) s.
+Proof.
+  unfold reach_at, st, bindM. intros Hm Hk. destruct (m s) as [[s1 e1] [a|x]]; cbn [fst] in *; [|exact Hm].
+  specialize (Hk a s1 e1 eq_refl). destruct (k a s1) as [[s2 e2] r]. cbn [fst] in *. eapply star_trans; eassumption.
+Qed.
+Lemma reach_bind {A B} (m : SM A) (k : A -> SM B) : reach m -> (forall a, reach (k a)) -> reach (bindM m k).
+Proof. intros Hm Hk s. apply reach_at_bind; [apply Hm|]. intros a s1 e1 _. apply Hk. Qed.
+Lemma reach_at_getS {B} (k : srv -> SM B) s : reach_at (k s) s -> reach_at (bindM getS k) s.
+Proof. unfold reach_at. rewrite bindM_getS. auto. Qed.
+Lemma reach_getS {B} (k : srv -> SM B) : (forall s0, reach (k s0)) -> reach (bindM getS k).
+Proof. intros H s. apply reach_at_getS. apply H. Qed.
+Lemma reach_catch {A} (m : SM A) h : reach m -> (forall x k, h x = Some k -> reach k) -> reach (catch m h).
+Proof.
+  intros Hm Hh s. unfold reach_at, st, catch. specialize (Hm s). unfold reach_at, st in Hm.
+  destruct (m s) as [[s1 e1] [a|x]]; cbn [fst] in *; [exact Hm|].
+  destruct (h x) as [k|] eqn:E; [|exact Hm]. specialize (Hh x k E s1). unfold reach_at, st in Hh.
+  destruct (k s1) as [[s2 e2] r]. cbn [fst] in *. eapply star_trans; eassumption.
+Qed.
+Lemma reach_finally {A} (m : SM A) f : reach m -> reach f -> reach (finallyM m f).
+Proof.
+  intros Hm Hf s. unfold reach_at, st, finallyM. specialize (Hm s). unfold reach_at, st in Hm.
+  destruct (m s) as [[s1 e1] r]. cbn [fst] in *. specialize (Hf s1). unfold reach_at, st in Hf.
+  destruct (f s1) as [[s2 e2] [u|x]]; cbn [fst] in *; eapply star_trans; eassumption.
+Qed.
+Lemma reach_contain m : reach m -> reach (contain m).
+Proof. intros Hm s. unfold reach_at, st, contain. specialize (Hm s). unfold reach_at, st in Hm. destruct (m s) as [[s1 e1] r]. exact Hm. Qed.
+Lemma reach_api m : reach m -> reach (api m).
+Proof. intros Hm s. unfold reach_at, st, api. specialize (Hm s). unfold reach_at, st in Hm. destruct (m s) as [[s1 e1] [u|x]]; exact Hm. Qed.
+Lemma reach_forM {A} (l : list A) f : (forall x, reach (f x)) -> reach (forM l f).
+Proof. intro H. induction l as [|x l IH]; cbn [forM]; [apply reach_ret|]. apply reach_bind; [apply H|]. intros _. exact IH. Qed.
+Lemma reach_forM_keep {A} (l : list A) f : (forall x, reach (f x)) -> forall first, reach (forM_keep l f first).
+Proof.
+  intro H. induction l as [|x l IH]; intros first; cbn [forM_keep]; [apply reach_ret|].
+  intro s. unfold reach_at, st. pose proof (H x s) as H1. unfold reach_at, st in H1.
+  destruct (f x s) as [[s1 e1] res]. cbn [fst] in *.
+  match goal with |- context [forM_keep l f ?ff s1] => pose proof (IH ff s1) as H2; unfold reach_at, st in H2;
+    destruct (forM_keep l f ff s1) as [[s2 e2] out] end.
+  cbn [fst] in *. eapply star_trans; eassumption.
+Qed.
+(* a loop whose body needs a property of the state that the body maintains *)
+Lemma reach_forM_inv {A} (R : srv -> Prop) (l : list A) f :
+  (forall x s, In x l -> R s -> reach_at (f x) s /\ R (st (f x s))) -> forall s, R s -> reach_at (forM l f) s.
+Proof.
+  induction l as [|x l IH]; intros H s HR; cbn [forM]; [apply star_refl|].
+  destruct (H x s (or_introl eq_refl) HR) as [H1 H2]. apply reach_at_bind; [exact H1|].
+  intros a s1 e1 Hrun. apply IH; [intros y s' Hy; apply H; right; exact Hy|].
+  unfold st in H2. rewrite Hrun in H2. exact H2.
+Qed.
+
+Lemma reach_other f :
+  (forall s, exists env bp se lv, f s = mkSrv (mg s) env bp se lv (fresh s)) -> reach (modify f).
+Proof. intros H s. destruct (H s) as (env & bp & se & lv & E). unfold reach_at, st, modify. cbn [fst]. rewrite E. apply star_one. constructor. Qed.
+Lemma reach_at_with_mg {A} (f : mgr -> mgr * A) s : prim s (upd_mg s (fst (f (mg s)))) -> reach_at (with_mg f) s.
+Proof. intro H. unfold reach_at, st. rewrite with_mg_eq. apply star_one. exact H. Qed.
+Lemma reach_at_set_mg f s : prim s (upd_mg s (f (mg s))) -> reach_at (set_mg f) s.
+Proof. intro H. unfold reach_at, st. rewrite set_mg_eq. apply star_one. exact H. Qed.
+
+Lemma reach_if {A} (b : bool) (m1 m2 : SM A) : reach m1 -> reach m2 -> reach (if b then m1 else m2).
+Proof. destruct b; auto. Qed.
+
+(* ---- the server's functions ---- *)
+Lemma reach_send_pieces eio pieces : reach (send_pieces eio pieces).
+Proof. intro s. unfold reach_at, st. rewrite send_pieces_eq. apply star_refl. Qed.
+Lemma reach_send_packet c eio t d ns id : reach (send_packet c eio t d ns id).
+Proof.
+  unfold send_packet. apply reach_bind; [apply reach_lift|]. intro p.
+  apply reach_bind; [apply reach_lift|]. intro enc. destruct eio; [apply reach_send_pieces|apply reach_ret].
+Qed.
+
+Lemma merge_members_keys acc b x :
+  In x (merge_members acc b) -> (exists e, In (fst x, e) acc) \/ (exists e, In (fst x, e) b).
+Proof.
+  unfold merge_members. revert acc. induction b as [|se b IH]; intros acc H; cbn [fold_left] in H.
+  - left. exists (snd x). destruct x; exact H.
+  - destruct (IH _ H) as [[e He]|[e He]].
+    + destruct (in_aset_key _ _ _ _ _ He) as [H1|H1]; cbn [fst] in H1.
+      * left. apply in_map_iff in H1 as ([k v] & Hk & Hin). cbn [fst] in Hk. subst. eauto.
+      * right. exists (snd se). left. destruct se; cbn [fst snd] in *. subst. reflexivity.
+    + right. exists e. right. exact He.
+Qed.
+
+Lemma participants_in_rooms m ns room parts se :
+  participants m ns room = Ok parts -> In se parts -> in_rooms m (fst se).
+Proof.
+  assert (Hlook : forall r x e, In (x, e) (match room_of m ns r with Some b => b | None => [] end) -> in_rooms m x).
+  { intros r x e. unfold room_of. destruct (ns_rooms m ns) as [rm|] eqn:Hns; [|intros []].
+    destruct (aget room_eqb rm r) as [b|] eqn:Hb; [|intros []].
+    intro Hin. destruct (aget_some_in _ _ _ _ Hb) as (k' & Hk & _).
+    exists ns, rm, k', b, e. split; [apply saget_in; exact Hns|]. split; assumption. }
+  assert (Hfold : forall rs acc, (forall x e, In (x, e) acc -> in_rooms m x) ->
+            forall x e, In (x, e) (fold_left (fun a r => merge_members a (match room_of m ns r with Some b => b | None => [] end)) rs acc) -> in_rooms m x).
+  { induction rs as [|r rs IH]; intros acc Hacc x e Hin; cbn [fold_left] in Hin; [eapply Hacc; exact Hin|].
+    eapply IH; [|exact Hin]. intros x' e' Hin'.
+    destruct (merge_members_keys _ _ _ Hin') as [[e0 H0]|[e0 H0]]; cbn [fst] in H0; [eapply Hacc|eapply Hlook]; exact H0. }
+  unfold participants. intros Hp Hin. destruct se as [x e]. cbn [fst].
+  destruct room; try discriminate; try (inversion Hp; subst; eapply Hlook; exact Hin);
+    destruct l as [|r0 rs]; try discriminate; inversion Hp; subst;
+    (eapply Hfold; [|exact Hin]); intros x' e' H'; eapply Hlook; exact H'.
+Qed.
+
+Lemma generate_ack_id_rooms m sid cb : rooms (fst (generate_ack_id m sid cb)) = rooms m.
+Proof. unfold generate_ack_id. destruct (cb_counter _); reflexivity. Qed.
+
+Lemma reach_mgr_emit c event data ns room skip cb : reach (mgr_emit c event data ns room skip cb).
+Proof.
+  intro s. unfold mgr_emit. apply reach_at_getS.
+  destruct (ns_rooms (mg s) ns); [|apply reach_ret].
+  destruct cb as [cbref|].
+  - destruct (participants (mg s) ns room) as [parts|x] eqn:Hp; [|apply star_refl].
+    unfold reach_at. rewrite bindM_lift_ok.
+    apply (reach_forM_inv (fun s' => rooms (mg s') = rooms (mg s))); [|reflexivity].
+    intros se s' Hi HR. destruct (skipped (skip_list skip) (fst se)) eqn:Hsk.
+    + split; [apply star_refl|exact HR].
+    + assert (Hack : prim s' (upd_mg s' (fst (generate_ack_id (mg s') (fst se) cbref)))).
+      { apply P_ack. destruct (participants_in_rooms _ _ _ _ _ Hp Hi) as (n0 & rm & r0 & b & e & H1 & H2 & H3).
+        exists n0, rm, r0, b, e. rewrite HR. auto. }
+      split.
+      * apply reach_at_bind; [apply reach_at_with_mg; exact Hack|].
+        intros r1 s1 e1 _. apply reach_bind; [apply reach_lift|]. intro id. apply reach_send_packet.
+      * unfold st, bindM. rewrite with_mg_eq.
+        destruct (snd (generate_ack_id (mg s') (fst se) cbref)) as [id|x]; cbn [lift fst].
+        -- rewrite send_packet_spec. cbn [fst mg upd_mg]. rewrite generate_ack_id_rooms. exact HR.
+        -- cbn [mg upd_mg]. rewrite generate_ack_id_rooms. exact HR.
+  - unfold reach_at. apply reach_bind; [apply reach_lift|]. intro p. apply reach_bind; [apply reach_lift|]. intro enc.
+    apply reach_bind; [apply reach_lift|]. intro parts. apply reach_forM. intro se.
+    destruct (skipped _ _); [apply reach_ret|apply reach_send_pieces].
+Qed.
+
+Lemma reach_run {A} (m : SM A) s s1 e1 r : reach m -> m s = (s1, e1, r) -> star s s1.
+Proof. intros H Hr. specialize (H s). unfold reach_at, st in H. rewrite Hr in H. exact H. Qed.
+Lemma reach_at_bind_star {A B} (m : SM A) (k : A -> SM B) s :
+  reach_at m s -> (forall a s1 e1, m s = (s1, e1, Ok a) -> star s s1 -> reach_at (k a) s1) -> reach_at (bindM m k) s.
+Proof.
+  intros Hm Hk. apply reach_at_bind; [exact Hm|]. intros a s1 e1 Hr. apply (Hk a s1 e1 Hr).
+  unfold reach_at, st in Hm. rewrite Hr in Hm. exact Hm.
+Qed.
+Lemma reach_at_finally {A} (m : SM A) f s :
+  reach_at m s -> (forall s1 e1 r, m s = (s1, e1, r) -> star s s1 -> reach_at f s1) -> reach_at (finallyM m f) s.
+Proof.
+  unfold reach_at, st, finallyM. intros Hm Hf. destruct (m s) as [[s1 e1] r]. cbn [fst] in *.
+  specialize (Hf s1 e1 r eq_refl Hm). destruct (f s1) as [[s2 e2] [u|x]]; cbn [fst] in *; eapply star_trans; eassumption.
+Qed.
+
+Lemma star_fresh s s' : star s s' -> fresh s <= fresh s'.
+Proof.
+  induction 1 as [|s s1 s2 Hp _ IH]; [lia|]. etransitivity; [|exact IH].
+  destruct Hp; cbn [fresh upd_mg bump]; lia.
+Qed.
+
+Ltac reach_tac :=
+  repeat first
+    [ apply reach_ret | apply reach_raise | apply reach_lift | apply reach_tell
+    | apply reach_send_packet | apply reach_send_pieces | apply reach_mgr_emit
+    | apply reach_contain | apply reach_api
+    | apply reach_getS; intro
+    | apply reach_bind; [|intro]
+    | apply reach_if
+    | match goal with
+      | |- reach (match ?x with _ => _ end) => destruct x
+      | |- reach (let '(_, _) := ?x in _) => destruct x
+      end ].
+
+Lemma reach_api_emit c ev data to room skip ns cb : reach (api_emit c ev data to room skip ns cb).
+Proof. unfold api_emit. apply reach_mgr_emit. Qed.
+Lemma reach_set_session eio d : reach (set_session eio d).
+Proof. unfold set_session. apply reach_other. intro s. eauto 6. Qed.
+Lemma reach_set_binpkt f : reach (set_binpkt f).
+Proof. unfold set_binpkt. apply reach_other. intro s. eauto 6. Qed.
+Lemma reach_api_get_session sid ns : reach (api_get_session sid ns).
+Proof.
+  unfold api_get_session. apply reach_getS; intro s0. apply reach_bind; [apply reach_lift|]. intro d.
+  destruct (aget str_eqb d (ns_or_default ns)); [apply reach_ret|].
+  destruct (eio_from_sid (mg s0) sid (ns_or_default ns)); [|apply reach_ret].
+  apply reach_bind; [apply reach_set_session|]. intro. apply reach_ret.
+Qed.
+Lemma reach_api_save_session sid v ns : reach (api_save_session sid v ns).
+Proof.
+  unfold api_save_session. apply reach_getS; intro s0. apply reach_bind; [apply reach_lift|]. intro d.
+  destruct (eio_from_sid (mg s0) sid (ns_or_default ns)); [apply reach_set_session|apply reach_ret].
+Qed.
+Lemma reach_with_mg_enter sid ns room : reach (with_mg (fun m => enter_room m sid ns room)).
+Proof. intro s. apply reach_at_with_mg. constructor. Qed.
+Lemma reach_set_mg_leave sid ns room : reach (set_mg (fun m => leave_room m sid ns room)).
+Proof. intro s. apply reach_at_set_mg. constructor. Qed.
+Lemma reach_set_mg_close room ns : reach (set_mg (fun m => close_room m room ns)).
+Proof. intro s. apply reach_at_set_mg. constructor. Qed.
+Lemma reach_set_mg_disc sid ns : reach (set_mg (fun m => mgr_disconnect m sid ns)).
+Proof. intro s. apply reach_at_set_mg. constructor. Qed.
+
+Lemma reach_run_action c ns sid a : reach (run_action c ns sid a).
+Proof.
+  destruct a; cbn [run_action].
+  - apply reach_bind; [apply reach_with_mg_enter|]. intro. apply reach_lift.
+  - apply reach_set_mg_leave.
+  - apply reach_api_emit.
+  - apply reach_api_emit.
+  - apply reach_api_save_session.
+  - apply reach_bind; [apply reach_api_get_session|]. intro. apply reach_tell.
+Qed.
+Lemma reach_call_handler c hid ns sid args : reach (call_handler c hid ns sid args).
+Proof.
+  unfold call_handler. destruct (aget N.eqb (behav c) hid) as [b|]; [|apply reach_raise].
+  destruct (match h_arity b with Some n => _ | None => false end); [apply reach_raise|].
+  apply reach_bind; [apply reach_tell|]. intro.
+  apply reach_bind; [apply reach_forM; intro; apply reach_run_action|]. intro.
+  destruct (h_outcome b); [apply reach_ret|apply reach_raise|apply reach_raise].
+Qed.
+Lemma reach_call_with_retry c ev hid ns sid args : reach (call_with_retry c ev hid ns sid args).
+Proof.
+  unfold call_with_retry. apply reach_catch; [apply reach_call_handler|].
+  intros x k. destruct x; try discriminate. destruct (is_disconnect ev); [|discriminate].
+  intro H; inversion H; subst. apply reach_call_handler.
+Qed.
+Lemma reach_trigger_event c ev ns args : reach (trigger_event c ev ns args).
+Proof.
+  unfold trigger_event. destruct (is_unhashable ev); [apply reach_raise|].
+  destruct (get_event_handler c ev ns args) as [[h a]|].
+  - apply reach_bind; [apply reach_call_with_retry|]. intro. apply reach_ret.
+  - destruct (get_namespace_handler c ns args) as [[methods a]|]; [|apply reach_ret].
+    destruct ev; try (destruct (truthy _); [apply reach_raise|apply reach_ret]); try apply reach_ret.
+    destruct (aget str_eqb methods s); [|apply reach_ret].
+    apply reach_bind; [apply reach_call_with_retry|]. intro. apply reach_ret.
+Qed.
+
+Lemma connected_in_rooms m sid ns : is_connected m (Some sid) ns = true -> in_rooms m sid.
+Proof.
+  intro Hc. destruct (connected_room _ _ _ Hc) as (_ & b & e & Hb & Hg).
+  rewrite room_of_none in Hb. destruct (ns_rooms m ns) as [rm|] eqn:Hns; [|discriminate].
+  destruct (aget_some_in _ _ _ _ Hb) as (k' & Hk & _).
+  exists ns, rm, k', b, e. split; [apply saget_in; exact Hns|]. split; [exact Hk|apply saget_in; exact Hg].
+Qed.
+
+Lemma reach_disc_tail c ns sid args :
+  reach (finallyM (_ <~ trigger_event c (PStr (s2l "disconnect")) ns args ;; ret tt)
+                  (set_mg (fun m => mgr_disconnect m sid ns))).
+Proof.
+  apply reach_finally; [|apply reach_set_mg_disc].
+  apply reach_bind; [apply reach_trigger_event|]. intro. apply reach_ret.
+Qed.
+
+Lemma reach_handle_disconnect c eio pn reason : reach (handle_disconnect c eio pn reason).
+Proof.
+  intro s. unfold handle_disconnect. apply reach_at_getS.
+  destruct (is_connected (mg s) (sid_from_eio (mg s) eio (ns_or_default pn)) (ns_or_default pn)) eqn:Hc;
+    cbn [negb]; [|apply star_refl].
+  destruct (sid_from_eio (mg s) eio (ns_or_default pn)) as [sid|]; [|apply star_refl].
+  apply reach_at_bind.
+  - apply reach_at_with_mg. apply P_pre. left. eapply connected_in_rooms. exact Hc.
+  - intros r s1 e1 _. apply reach_bind; [apply reach_lift|]. intro. apply reach_disc_tail.
+Qed.
+
+Lemma reach_api_disconnect c sid pn : reach (api_disconnect c sid pn).
+Proof.
+  intro s. unfold api_disconnect. apply reach_at_getS.
+  destruct (is_connected (mg s) (Some sid) (ns_or_default pn)) eqn:Hc; cbn [negb]; [|apply star_refl].
+  apply reach_at_bind.
+  - apply reach_at_with_mg. apply P_pre. left. eapply connected_in_rooms. exact Hc.
+  - intros r s1 e1 _. apply reach_bind; [apply reach_lift|]. intro.
+    apply reach_bind; [apply reach_send_packet|]. intro. apply reach_disc_tail.
+Qed.
+
+Lemma reach_handle_event c eio pn id data : reach (handle_event c eio pn id data).
+Proof.
+  unfold handle_event. apply reach_getS; intro s0. apply reach_bind; [apply reach_lift|]. intro ea.
+  destruct (negb _); [apply reach_ret|].
+  destruct (sid_from_eio (mg s0) eio (ns_or_default pn)); [|apply reach_ret].
+  apply reach_bind; [apply reach_trigger_event|]. intros [v|]; [|apply reach_ret].
+  destruct id; [apply reach_send_packet|apply reach_ret].
+Qed.
+
+Lemma reach_handle_ack c eio pn id data : reach (handle_ack c eio pn id data).
+Proof.
+  unfold handle_ack. apply reach_getS; intro s0.
+  apply reach_bind; [intro s; apply reach_at_with_mg; constructor|].
+  intros [|cb]; [apply reach_ret|]. apply reach_bind; [apply reach_lift|]. intro. apply reach_tell.
+Qed.
+
+Lemma ns_or_default_nonempty pn : ns_or_default pn <> [].
+Proof. unfold ns_or_default, slash. destruct pn as [[|x r]|]; discriminate. Qed.
+
+Lemma mgr_connect_some m eio ns x y : snd (mgr_connect m eio ns x) = Some y -> y = x.
+Proof.
+  unfold mgr_connect. destruct (put_member m ns PNone x eio) as [m1 [|]]; [|discriminate].
+  destruct (put_member m1 ns (PStr x) x eio). cbn [snd]. intro H; inversion H; reflexivity.
+Qed.
+
+Lemma reach_connect_try c ns sid env data :
+  reach (catch
+           (r <~ (if truthy data then trigger_event c (PStr (s2l "connect")) ns [PStr sid; env; data]
+                  else catch (trigger_event c (PStr (s2l "connect")) ns [PStr sid; env])
+                             (fun e => match e with
+                                       | TypeError => Some (trigger_event c (PStr (s2l "connect")) ns [PStr sid; env; PNone])
+                                       | _ => None end)) ;;
+            ret (r, error_args []))
+           (fun e => match e with
+                     | ConnectionRefused =>
+                         Some (ret (Some (PBool false), error_args (refusal_args c (connect_hid c ns))))
+                     | _ => None end)).
+Proof.
+  apply reach_catch.
+  - apply reach_bind; [|intro; apply reach_ret].
+    apply reach_if; [apply reach_trigger_event|].
+    apply reach_catch; [apply reach_trigger_event|].
+    intros x k. destruct x; try discriminate. intro H; inversion H; subst. apply reach_trigger_event.
+  - intros x k. destruct x; try discriminate. intro H; inversion H; subst. apply reach_ret.
+Qed.
+
+Lemma reach_handle_connect c eio pn data : reach (handle_connect c eio pn data).
+Proof.
+  intro s. unfold handle_connect. set (ns := ns_or_default pn). apply reach_at_getS.
+  apply reach_at_bind_star.
+  - destruct (served c ns); [|apply star_refl].
+    unfold reach_at, st. rewrite bindM_putS, with_mg_eq. cbn [fst mg].
+    apply star_one. exact (P_conn s eio ns (ns_or_default_nonempty pn)).
+  - intros osid s1 e1 Hrun Hst1.
+    destruct osid as [sid|]; [|apply reach_send_packet].
+    assert (Hsid : sid = new_sid s /\ fresh s1 = fresh s + 1).
+    { destruct (served c ns); [|discriminate].
+      rewrite bindM_putS, with_mg_eq in Hrun. cbn [mg] in Hrun. inversion Hrun as [[H1 H2 H3]].
+      split; [eapply mgr_connect_some; exact H3|reflexivity]. }
+    destruct Hsid as [Hsid Hfr].
+    apply reach_at_bind_star; [apply reach_if; [apply reach_send_packet|apply reach_ret]|].
+    intros _ s2 e2 _ Hst2.
+    apply reach_at_bind_star; [destruct (aget str_eqb (environ s) eio); [apply reach_ret|apply reach_raise]|].
+    intros env s3 e3 _ Hst3.
+    apply reach_at_bind_star; [apply reach_connect_try|].
+    intros [success fail_reason] s4 e4 _ Hst4.
+    destruct (match success with Some v => pv_eqb v (PBool false) | None => false end).
+    + apply reach_at_finally; [|intros; apply reach_set_mg_disc].
+      destruct (always_connect c); [|apply reach_send_packet].
+      apply reach_at_bind.
+      * apply reach_at_with_mg. apply P_pre. right. exists (fresh s). split; [|exact Hsid].
+        (* the id generator only moves forward *)
+        pose proof (star_fresh _ _ Hst2). pose proof (star_fresh _ _ Hst3). pose proof (star_fresh _ _ Hst4). lia.
+      * intros r s6 e6 _. apply reach_bind; [apply reach_lift|]. intro. apply reach_send_packet.
+    + apply reach_if; [apply reach_ret|apply reach_send_packet].
+Qed.
+
+Lemma reach_handle_eio_message c loads eio payload : reach (handle_eio_message c loads eio payload).
+Proof.
+  unfold handle_eio_message. apply reach_getS; intro s0.
+  destruct (aget str_eqb (binpkt s0) eio) as [r|].
+  - destruct (add_attachment r payload) as [[r' [|]]|x].
+    + apply reach_bind; [apply reach_set_binpkt|]. intro.
+      apply reach_if; [apply reach_handle_event|apply reach_handle_ack].
+    + apply reach_set_binpkt.
+    + apply reach_bind; [apply reach_if; [apply reach_ret|apply reach_set_binpkt]|]. intro. apply reach_raise.
+  - apply reach_bind; [apply reach_lift|]. intro r.
+    repeat (apply reach_if;
+            [first [apply reach_handle_connect|apply reach_handle_disconnect|apply reach_handle_event
+                   |apply reach_handle_ack|apply reach_set_binpkt]|]).
+    apply reach_raise.
+Qed.
+
+Lemma reach_handle_eio_disconnect c eio reason : reach (handle_eio_disconnect c eio reason).
+Proof.
+  unfold handle_eio_disconnect. apply reach_getS; intro s0.
+  apply reach_bind; [apply reach_forM_keep; intro; apply reach_handle_disconnect|]. intro exc.
+  apply reach_bind; [apply reach_other; intro s; eauto 6|]. intro.
+  destruct exc; [apply reach_raise|apply reach_ret].
+Qed.
+
+Lemma reach_step_m c o : reach (step_m c o).
+Proof.
+  destruct o; cbn [step_m].
+  - apply reach_other. intro s. eauto 6.
+  - apply reach_getS; intro s0. apply reach_if; [apply reach_contain; apply reach_handle_eio_message|apply reach_ret].
+  - apply reach_getS; intro s0. apply reach_if; [|apply reach_ret].
+    apply reach_bind; [apply reach_contain; apply reach_handle_eio_disconnect|]. intro.
+    apply reach_other. intro s. eauto 6.
+  - apply reach_api. apply reach_api_emit.
+  - apply reach_api. apply reach_bind; [apply reach_with_mg_enter|]. intro. apply reach_lift.
+  - apply reach_api. apply reach_set_mg_leave.
+  - apply reach_api. apply reach_set_mg_close.
+  - apply reach_getS; intro s0. apply reach_tell.
+  - apply reach_api. apply reach_api_disconnect.
+  - apply reach_api. apply reach_bind; [apply reach_api_get_session|]. intro. apply reach_tell.
+  - apply reach_api. apply reach_api_save_session.
+  - apply reach_api. apply reach_bind; [apply reach_api_get_session|]. intro. apply reach_api_save_session.
+Qed.
+
+Theorem step_star c s o : star s (fst (step c s o)).
+Proof.
+  pose proof (reach_step_m c o s) as H. unfold reach_at, st in H. unfold step.
+  destruct (step_m c o s) as [[s' e] r]. exact H.
+Qed.
+
+(* ------------------------------------------------------------------ *)
+(* every primitive transition preserves the invariant                  *)
+(* ------------------------------------------------------------------ *)
+Section SidsAll.
+  Variable P : str -> Prop.
+  Definition bd_all (b : bidict) : Prop := forall sid e, In (sid, e) b -> P sid.
+  Definition rm_all (rm : roommap) : Prop := forall room b, In (room, b) rm -> bd_all b.
+  Definition rooms_all (rs : list (str * roommap)) : Prop := forall ns rm, In (ns, rm) rs -> rm_all rm.
+
+  Lemma sids_all_rooms m : sids_all P m -> rooms_all (rooms m).
+  Proof. intros (H & _) ns rm Hin room b Hb sid e Hs. eapply H; eassumption. Qed.
+  Lemma sids_all_intro m :
+    rooms_all (rooms m) -> (forall ns l sid, In (ns, l) (pending m) -> In sid l -> P sid) ->
+    (forall sid slot, In (sid, slot) (callbacks m) -> P sid) -> sids_all P m.
+  Proof. intros H1 H2 H3. split; [|split; assumption]. intros ns rm room b sid e A B C. eapply H1; eassumption. Qed.
+
+  Lemma bd_all_aset b sid e : bd_all b -> P sid -> bd_all (aset str_eqb b sid e).
+  Proof.
+    intros Hb Hp s' e' Hin. destruct (in_aset_key _ _ _ _ _ Hin) as [H|H]; cbn [fst] in H.
+    - apply in_map_iff in H as ([k v] & Hk & Hkv). cbn [fst] in Hk. subst. eapply Hb. exact Hkv.
+    - subst. exact Hp.
+  Qed.
+  Lemma bd_all_adel b sid : bd_all b -> bd_all (adel str_eqb b sid).
+  Proof. intros Hb s' e' Hin. eapply Hb. eapply in_adel. exact Hin. Qed.
+  Lemma rm_all_aset rm room b : rm_all rm -> bd_all b -> rm_all (aset room_eqb rm room b).
+  Proof.
+    intros Hrm Hb room' b' Hin. destruct (in_aset _ _ _ _ _ Hin) as [H|H]; [eapply Hrm; exact H|].
+    cbn [snd] in H. subst. exact Hb.
+  Qed.
+  Lemma rm_all_adel rm room : rm_all rm -> rm_all (adel room_eqb rm room).
+  Proof. intros Hrm room' b' Hin. eapply Hrm. eapply in_adel. exact Hin. Qed.
+  Lemma rooms_all_aset rs ns rm : rooms_all rs -> rm_all rm -> rooms_all (aset str_eqb rs ns rm).
+  Proof.
+    intros Hrs Hrm ns' rm' Hin. destruct (in_aset _ _ _ _ _ Hin) as [H|H]; [eapply Hrs; exact H|].
+    cbn [snd] in H. subst. exact Hrm.
+  Qed.
+  Lemma rooms_all_adel rs ns : rooms_all rs -> rooms_all (adel str_eqb rs ns).
+  Proof. intros Hrs ns' rm' Hin. eapply Hrs. eapply in_adel. exact Hin. Qed.
+  Lemma rooms_all_get m ns rm : rooms_all (rooms m) -> ns_rooms m ns = Some rm -> rm_all rm.
+  Proof. intros H Hns. eapply H. apply saget_in. exact Hns. Qed.
+  Lemma rm_all_get rm room b : rm_all rm -> aget room_eqb rm room = Some b -> bd_all b.
+  Proof. intros H Hb. destruct (aget_some_in _ _ _ _ Hb) as (k' & Hk & _). eapply H. exact Hk. Qed.
+  Lemma rm_all_nil : rm_all []. Proof. intros ? ? []. Qed.
+  Lemma bd_all_nil : bd_all []. Proof. intros ? ? []. Qed.
+
+  Lemma rooms_all_set_ns m ns rm' : rooms_all (rooms m) -> rm_all rm' -> rooms_all (rooms (set_ns m ns rm')).
+  Proof.
+    intros H Hrm. unfold set_ns. destruct rm'; cbn [rooms set_rooms];
+      [apply rooms_all_adel; exact H|apply rooms_all_aset; assumption].
+  Qed.
+
+  Lemma rooms_all_leave m sid ns room : rooms_all (rooms m) -> rooms_all (rooms (leave_room m sid ns room)).
+  Proof.
+    intro H. rewrite leave_room_unfold. destruct (ns_rooms m ns) as [rm|] eqn:Hns; [|exact H].
+    destruct (rm_leave rm sid room) as [rm'|] eqn:Hl; [|exact H].
+    apply rooms_all_set_ns; [exact H|]. pose proof (rooms_all_get _ _ _ H Hns) as Hrm.
+    unfold rm_leave in Hl. destruct (aget room_eqb rm room) as [b|] eqn:Hb; [|discriminate].
+    destruct (bd_get b sid); [|discriminate]. inversion Hl; subst; clear Hl.
+    destruct (adel str_eqb b sid) as [|x r] eqn:Hd; [apply rm_all_adel; exact Hrm|].
+    apply rm_all_aset; [exact Hrm|]. rewrite <- Hd. apply bd_all_adel. eapply rm_all_get; eassumption.
+  Qed.
+
+  Lemma sids_all_leave m sid ns room : sids_all P m -> sids_all P (leave_room m sid ns room).
+  Proof.
+    intro H. pose proof (rooms_all_leave m sid ns room (sids_all_rooms _ H)) as Hr.
+    destruct H as (_ & Hp & Hc). apply sids_all_intro; [exact Hr| |].
+    - assert (E : pending (leave_room m sid ns room) = pending m); [|rewrite E; exact Hp].
+      rewrite leave_room_unfold. destruct (ns_rooms m ns); [|reflexivity]. destruct (rm_leave _ _ _); reflexivity.
+    - assert (E : callbacks (leave_room m sid ns room) = callbacks m); [|rewrite E; exact Hc].
+      rewrite leave_room_unfold. destruct (ns_rooms m ns); [|reflexivity]. destruct (rm_leave _ _ _); reflexivity.
+  Qed.
+
+  Lemma in_remove_first l x y : In y (remove_first l x) -> In y l.
+  Proof.
+    induction l as [|z l IH]; cbn [remove_first]; [intros []|].
+    destruct (str_eqb z x); [intro H; right; exact H|]. intros [H|H]; [left; exact H|right; exact (IH H)].
+  Qed.
+End SidsAll.
+
+Lemma sids_all_impl (P Q : str -> Prop) m : (forall x, P x -> Q x) -> sids_all P m -> sids_all Q m.
+Proof.
+  intros HPQ (H1 & H2 & H3). split; [|split].
+  - intros ns rm room b sid e A B C. apply HPQ. eapply H1; eassumption.
+  - intros ns l sid A B. apply HPQ. eapply H2; eassumption.
+  - intros sid slot A. apply HPQ. eapply H3; eassumption.
+Qed.
+Lemma below_mono n n' x : n <= n' -> below n x -> below n' x.
+Proof. intros Hle (k & Hk & He). exists k. split; [lia|exact He]. Qed.
+
+(* keys of the rooms table *)
+Lemma keys_aset {V} (l : list (str * V)) k v x : In x (map fst (aset str_eqb l k v)) -> In x (map fst l) \/ x = k.
+Proof.
+  intro H. apply in_map_iff in H as (y & Hy & Hin). destruct (in_aset_key _ _ _ _ _ Hin) as [H1|H1]; subst; auto.
+Qed.
+Lemma keys_adel {V} (l : list (str * V)) k x : In x (map fst (adel str_eqb l k)) -> In x (map fst l).
+Proof. intro H. apply in_map_iff in H as (y & Hy & Hin). subst. apply in_map. eapply in_adel. exact Hin. Qed.
+Lemma ns_rooms_key m ns rm : ns_rooms m ns = Some rm -> In ns (map fst (rooms m)).
+Proof. intro H. apply saget_in in H. apply (in_map fst) in H. exact H. Qed.
+
+Lemma ns_nonempty_set_ns m ns rm' : ns_nonempty m -> ns <> [] -> ns_nonempty (set_ns m ns rm').
+Proof.
+  intros H Hne x Hin. unfold set_ns in Hin. destruct rm'; cbn [rooms set_rooms] in Hin.
+  - apply H. eapply keys_adel. exact Hin.
+  - destruct (keys_aset _ _ _ _ Hin) as [H1|H1]; [apply H; exact H1|subst; exact Hne].
+Qed.
+Lemma ns_nonempty_leave m sid ns room : ns_nonempty m -> ns_nonempty (leave_room m sid ns room).
+Proof.
+  intro H. rewrite leave_room_unfold. destruct (ns_rooms m ns) as [rm|] eqn:Hns; [|exact H].
+  destruct (rm_leave rm sid room); [|exact H]. apply ns_nonempty_set_ns; [exact H|].
+  apply H. eapply ns_rooms_key. exact Hns.
+Qed.
+Lemma leave_room_pending m sid ns room : pending (leave_room m sid ns room) = pending m.
+Proof. rewrite leave_room_unfold. destruct (ns_rooms m ns); [|reflexivity]. destruct (rm_leave _ _ _); reflexivity. Qed.
+Lemma leave_room_callbacks m sid ns room : callbacks (leave_room m sid ns room) = callbacks m.
+Proof. rewrite leave_room_unfold. destruct (ns_rooms m ns); [|reflexivity]. destruct (rm_leave _ _ _); reflexivity. Qed.
+
+Lemma MI_leave n m sid ns room : MI n m -> MI n (leave_room m sid ns room).
+Proof.
+  intros (H1 & H2 & H3 & H4). split; [apply (leave_room_spec m sid ns room H1)|].
+  split; [apply sids_all_leave; exact H2|]. split; [|apply ns_nonempty_leave; exact H4].
+  unfold pending_nonempty. rewrite leave_room_pending. exact H3.
+Qed.
+Lemma MI_fold_leave {A} n (f : A -> str) (g : A -> pv) ns l : forall m,
+  MI n m -> MI n (fold_left (fun m x => leave_room m (f x) ns (g x)) l m).
+Proof. induction l as [|x l IH]; intros m H; cbn [fold_left]; [exact H|]. apply IH. apply MI_leave. exact H. Qed.
+
+Lemma MI_close n m room ns : MI n m -> MI n (close_room m room ns).
+Proof.
+  intro H. unfold close_room. destruct (participants m ns room) as [b|]; [|exact H].
+  apply (MI_fold_leave n (fun se : str * str => fst se) (fun _ => room)). exact H.
+Qed.
+
+Lemma MI_rooms_same n m m' :
+  rooms m' = rooms m -> MI n m ->
+  (forall ns l sid, In (ns, l) (pending m') -> In sid l -> below n sid) ->
+  (forall sid slot, In (sid, slot) (callbacks m') -> below n sid) ->
+  pending_nonempty m' -> MI n m'.
+Proof.
+  intros Hr (H1 & H2 & H3 & H4) Hp Hc Hpn. split; [eapply MOK_rooms; eassumption|].
+  split; [|split; [exact Hpn|unfold ns_nonempty; rewrite Hr; exact H4]].
+  apply sids_all_intro; [rewrite Hr; apply sids_all_rooms; exact H2|exact Hp|exact Hc].
+Qed.
+
+Lemma in_rooms_P P m sid : sids_all P m -> in_rooms m sid -> P sid.
+Proof. intros (H & _) (ns & rm & room & b & e & A & B & C). eapply H; eassumption. Qed.
+
+Lemma MI_pre n m sid ns : MI n m -> below n sid -> MI n (fst (pre_disconnect m sid ns)).
+Proof.
+  intros H Hb. pose proof H as (H1 & (_ & H2p & H2c) & H3 & H4).
+  apply (MI_rooms_same n m); [apply pre_disconnect_rooms|exact H| | |].
+  - rewrite pre_disconnect_pending. intros ns' l x Hin Hx.
+    destruct (in_aset _ _ _ _ _ Hin) as [Hi|Hi]; [eapply H2p; eassumption|].
+    cbn [snd] in Hi. subst l. apply in_app_or in Hx as [Hx|[Hx|[]]]; [|subst; exact Hb].
+    destruct (aget str_eqb (pending m) ns) as [l0|] eqn:E; [|destruct Hx].
+    eapply H2p; [apply saget_in; exact E|exact Hx].
+  - rewrite pre_disconnect_callbacks. exact H2c.
+  - unfold pending_nonempty. rewrite pre_disconnect_pending. intros ns' l Hin.
+    destruct (in_aset _ _ _ _ _ Hin) as [Hi|Hi]; [eapply H3; exact Hi|].
+    cbn [snd] in Hi. subst l. destruct (match aget str_eqb (pending m) ns with Some l => l | None => [] end); discriminate.
+Qed.
+
+Lemma MI_disc n m sid ns : MI n m -> MI n (mgr_disconnect m sid ns).
+Proof.
+  intro H. unfold mgr_disconnect. destruct (ns_rooms m ns) as [rm|]; [|exact H].
+  set (names := map fst (filter _ rm)).
+  pose proof (MI_fold_leave n (fun _ : pv => sid) (fun r => r) ns names m H) as H1. cbn beta in H1.
+  set (m1 := fold_left (fun m r => leave_room m sid ns r) names m) in *.
+  set (m2 := mkMgr (rooms m1) (pending m1) (adel str_eqb (callbacks m1) sid)).
+  assert (H2 : MI n m2).
+  { pose proof H1 as (_ & (_ & Hp & Hc) & Hpn & _).
+    apply (MI_rooms_same n m1); [reflexivity|exact H1|exact Hp| |exact Hpn].
+    intros x slot Hin. eapply Hc. eapply in_adel. exact Hin. }
+  destruct (is_pending m2 sid ns); [|exact H2].
+  pose proof H2 as (_ & (_ & Hp & Hc) & Hpn & _).
+  apply (MI_rooms_same n m2); [reflexivity|exact H2| |exact Hc|].
+  - intros ns' l x Hin Hx. cbn [pending] in Hin.
+    destruct (match aget str_eqb (pending m2) ns with Some l => remove_first l sid | None => [] end) as [|y r] eqn:E.
+    + eapply Hp; [eapply in_adel; exact Hin|exact Hx].
+    + destruct (in_aset _ _ _ _ _ Hin) as [Hi|Hi]; [eapply Hp; eassumption|].
+      cbn [snd] in Hi. subst l. destruct (aget str_eqb (pending m2) ns) as [l0|] eqn:E0; [|discriminate].
+      rewrite <- E in Hx. eapply Hp; [apply saget_in; exact E0|eapply in_remove_first; exact Hx].
+  - intros ns' l Hin. cbn [pending] in Hin.
+    destruct (match aget str_eqb (pending m2) ns with Some l => remove_first l sid | None => [] end) as [|y r] eqn:E.
+    + eapply Hpn. eapply in_adel. exact Hin.
+    + destruct (in_aset _ _ _ _ _ Hin) as [Hi|Hi]; [eapply Hpn; exact Hi|]. cbn [snd] in Hi. subst. discriminate.
+Qed.
+
+Lemma MI_ack n m sid cb : MI n m -> below n sid -> MI n (fst (generate_ack_id m sid cb)).
+Proof.
+  intros H Hb. pose proof H as (_ & (_ & Hp & Hc) & Hpn & _).
+  assert (Hcb : forall slot' x slot, In (x, slot) (aset str_eqb (callbacks m) sid slot') -> below n x).
+  { intros slot' x slot Hin. destruct (in_aset_key _ _ _ _ _ Hin) as [Hi|Hi]; cbn [fst] in Hi; [|subst; exact Hb].
+    apply in_map_iff in Hi as ([k v] & Hk & Hkv). cbn [fst] in Hk. subst. eapply Hc. exact Hkv. }
+  unfold generate_ack_id. destruct (cb_counter _);
+    (apply (MI_rooms_same n m); [reflexivity|exact H|exact Hp|apply Hcb|exact Hpn]).
+Qed.
+
+Lemma MI_cb n m osid id : MI n m -> MI n (fst (trigger_callback m osid id)).
+Proof.
+  intro H. pose proof H as (_ & (_ & Hp & Hc) & Hpn & _).
+  unfold trigger_callback. destruct osid as [s0|]; [|exact H]. destruct id as [i|]; [|exact H].
+  destruct (aget str_eqb (callbacks m) s0) as [slot|] eqn:E; [|exact H].
+  destruct (i <=? 0)%Z; [exact H|]. destruct (aget N.eqb (cb_entries slot) (Z.to_N i)); [|exact H].
+  cbn [fst]. apply (MI_rooms_same n m); [reflexivity|exact H|exact Hp| |exact Hpn].
+  intros x slot' Hin. destruct (in_aset_key _ _ _ _ _ Hin) as [Hi|Hi]; cbn [fst] in Hi.
+  - apply in_map_iff in Hi as ([k v] & Hk & Hkv). cbn [fst] in Hk. subst. eapply Hc. exact Hkv.
+  - subst. eapply Hc. apply saget_in. exact E.
+Qed.
+
+Lemma bd_put_all P b sid eio b' : bd_put b sid eio = Some b' -> bd_all P b -> P sid -> bd_all P b'.
+Proof.
+  unfold bd_put. destruct (bd_inv b eio) as [s'|].
+  - destruct (str_eqb s' sid); [|discriminate]. intro H; inversion H; subst. tauto.
+  - intro H; inversion H; subst. apply bd_all_aset.
+Qed.
+
+(* writing one bidict into a room of a namespace *)
+Lemma MI_write n m ns rm room bX :
+  MI n m -> ns <> [] -> rm_ok1 rm -> rm_all (below n) rm ->
+  (room = PNone -> bd_ok bX) -> bd_all (below n) bX ->
+  MI n (set_rooms m (aset str_eqb (rooms m) ns (aset room_eqb rm room bX))).
+Proof.
+  intros (H1 & H2 & H3 & H4) Hne Hok Hall Hnd Hb.
+  split; [apply MOK_aset_ns; [exact H1|apply rm_ok1_aset; assumption]|].
+  split; [|split; [exact H3|]].
+  - destruct H2 as (Hr & Hp & Hc). apply sids_all_intro; [|exact Hp|exact Hc].
+    cbn [rooms set_rooms]. apply rooms_all_aset; [intros a b0 c d e f g h i; eapply Hr; eassumption|].
+    apply rm_all_aset; assumption.
+  - intros x Hin. cbn [rooms set_rooms] in Hin. destruct (keys_aset _ _ _ _ Hin) as [Hi|Hi]; [apply H4; exact Hi|subst; exact Hne].
+Qed.
+
+Lemma MI_enter n m sid ns room : MI n m -> MI n (fst (enter_room m sid ns room)).
+Proof.
+  intro H. unfold enter_room. destruct (ns_rooms m ns) as [rm|] eqn:Hns; [|exact H].
+  change (aget room_eqb rm PNone) with (none_bd rm).
+  destruct (none_bd rm) as [b0|] eqn:Hb0; [|exact H].
+  destruct (bd_get b0 sid) as [eio|] eqn:Hg; [|exact H].
+  pose proof H as (H1 & H2 & H3 & H4).
+  pose proof (rooms_all_get _ _ _ _ (sids_all_rooms _ _ H2) Hns) as Hrm.
+  assert (Hsid : below n sid).
+  { eapply (rm_all_get _ _ _ _ Hrm Hb0). apply saget_in. exact Hg. }
+  assert (Hne : ns <> []) by (apply H4; eapply ns_rooms_key; exact Hns).
+  pose proof (MOK_ns _ _ _ H1 Hns) as Hok.
+  set (b := match aget room_eqb rm room with Some b => b | None => [] end).
+  assert (Hball : bd_all (below n) b).
+  { unfold b. destruct (aget room_eqb rm room) eqn:E; [eapply rm_all_get; eassumption|apply bd_all_nil]. }
+  assert (Hbnd : room = PNone -> bd_ok b).
+  { intros ->. unfold b. change (aget room_eqb rm PNone) with (none_bd rm). rewrite Hb0. destruct Hok as [_ Hk]. exact (Hk _ Hb0). }
+  destruct (bd_put b sid eio) as [b'|] eqn:Hp; cbn [fst].
+  - apply MI_write; try assumption.
+    + intro Hr. eapply bd_put_ok; [exact Hp|exact (Hbnd Hr)].
+    + eapply bd_put_all; eassumption.
+  - apply MI_write; assumption.
+Qed.
+
+Lemma MI_put_member n m ns room sid eio :
+  MI n m -> ns <> [] -> below n sid -> MI n (fst (put_member m ns room sid eio)).
+Proof.
+  intros H Hne Hsid. rewrite put_member_unfold. cbn [fst]. pose proof H as (H1 & H2 & H3 & H4).
+  assert (Hrm : rm_all (below n) (pm_rm m ns)).
+  { unfold pm_rm. destruct (ns_rooms m ns) eqn:E; [eapply rooms_all_get; [apply sids_all_rooms; exact H2|exact E]|apply rm_all_nil]. }
+  assert (Hb : bd_all (below n) (pm_b m ns room)).
+  { unfold pm_b. destruct (aget room_eqb (pm_rm m ns) room) eqn:E; [eapply rm_all_get; eassumption|apply bd_all_nil]. }
+  apply MI_write; try assumption.
+  - apply rm_ok1_pm_rm. exact H1.
+  - intros ->. pose proof (pm_b_none_keys m ns H1) as Hk.
+    destruct (bd_put (pm_b m ns PNone) sid eio) eqn:E; [eapply bd_put_ok; eassumption|exact Hk].
+  - destruct (bd_put (pm_b m ns room) sid eio) eqn:E; [eapply bd_put_all; eassumption|exact Hb].
+Qed.
+
+Lemma MI_connect n m eio ns sid : MI n m -> ns <> [] -> below n sid -> MI n (fst (mgr_connect m eio ns sid)).
+Proof.
+  intros H Hne Hsid. unfold mgr_connect.
+  pose proof (MI_put_member n m ns PNone sid eio H Hne Hsid) as H1.
+  destruct (put_member m ns PNone sid eio) as [m1 [|]]; cbn [fst] in *; [|exact H1].
+  pose proof (MI_put_member n m1 ns (PStr sid) sid eio H1 Hne Hsid) as H2.
+  destruct (put_member m1 ns (PStr sid) sid eio) as [m2 ok]. exact H2.
+Qed.
+
+Lemma MI_mono n n' m : n <= n' -> MI n m -> MI n' m.
+Proof.
+  intros Hle (H1 & H2 & H3 & H4). split; [exact H1|]. split; [|split; assumption].
+  eapply sids_all_impl; [|exact H2]. intros x. apply below_mono. exact Hle.
+Qed.
+
+Theorem prim_Inv s s' : prim s s' -> Inv s -> Inv s'.
+Proof.
+  unfold Inv. intros Hp HI. destruct Hp; cbn [mg fresh upd_mg bump].
+  - exact HI.
+  - apply MI_leave. exact HI.
+  - apply MI_enter. exact HI.
+  - apply MI_close. exact HI.
+  - apply MI_disc. exact HI.
+  - apply MI_pre; [exact HI|]. destruct H as [H|H]; [|exact H]. eapply in_rooms_P; [apply HI|exact H].
+  - apply MI_ack; [exact HI|]. eapply in_rooms_P; [apply HI|exact H].
+  - apply MI_cb. exact HI.
+  - apply MI_connect; [eapply MI_mono; [|exact HI]; lia|exact H|].
+    exists (fresh s). split; [lia|reflexivity].
+Qed.
+
+Theorem star_Inv s s' : star s s' -> Inv s -> Inv s'.
+Proof. induction 1; [auto|]. intro HI. apply IHstar. eapply prim_Inv; eassumption. Qed.
+
+(* the invariant is preserved by every operation, whatever the handlers' scripts do *)
+Theorem step_Inv c s o : Inv s -> Inv (fst (step c s o)).
+Proof. apply star_Inv. apply step_star. Qed.
+Theorem step_fresh_mono c s o : fresh s <= fresh (fst (step c s o)).
+Proof. apply star_fresh. apply step_star. Qed.
+
+Lemma run_cons' c s o r :
+  run c s (o :: r) = (fst (run c (fst (step c s o)) r), snd (step c s o) :: snd (run c (fst (step c s o)) r)).
+Proof.
+  cbn [run]. destruct (step c s o) as [s1 e]. cbn [fst snd]. destruct (run c s1 r) as [s2 es]. reflexivity.
+Qed.
+Theorem run_Inv c ops : forall s, Inv s -> Inv (fst (run c s ops)).
+Proof.
+  induction ops as [|o r IH]; intros s HI; [exact HI|]. rewrite run_cons'. cbn [fst]. apply IH. apply step_Inv. exact HI.
+Qed.
+Theorem run_fresh_mono c ops : forall s, fresh s <= fresh (fst (run c s ops)).
+Proof.
+  induction ops as [|o r IH]; intros s; [cbn; lia|]. rewrite run_cons'. cbn [fst].
+  etransitivity; [apply (step_fresh_mono c s o)|apply IH].
+Qed.
+Corollary reachable_Inv c ops : Inv (fst (run c srv_init ops)).
+Proof. apply run_Inv. apply Inv_init. Qed.
+
+(* ------------------------------------------------------------------ *)
+(* C04_fresh_sid: ids are consumed monotonically, announced sids differ *)
+(* ------------------------------------------------------------------ *)
+Definition connect_rest (c : cfg) (eio ns : str) (data : pv) (envs : list (str * pv)) (osid : option str) : SM unit :=
+  match osid with
+  | None => send_packet c (Some eio) CONNECT_ERROR (PStr (s2l "Unable to connect")) ns None
+  | Some sid =>
+      (if always_connect c then send_packet c (Some eio) CONNECT (sid_dict sid) ns None else ret tt) ;;;
+      env <~ (match aget str_eqb envs eio with Some e => ret e | None => raise KeyError end) ;;
+      let ev := PStr (s2l "connect") in
+      res <~ catch
+               (r <~ (if truthy data then trigger_event c ev ns [PStr sid; env; data]
+                      else catch (trigger_event c ev ns [PStr sid; env])
+                                 (fun e => match e with
+                                           | TypeError => Some (trigger_event c ev ns [PStr sid; env; PNone])
+                                           | _ => None end)) ;;
+                ret (r, error_args []))
+               (fun e => match e with
+                         | ConnectionRefused =>
+                             Some (ret (Some (PBool false), error_args (refusal_args c (connect_hid c ns))))
+                         | _ => None end) ;;
+      let '(success, fail_reason) := res in
+      if match success with Some v => pv_eqb v (PBool false) | None => false end then
+        finallyM
+          (if always_connect c then
+             r <~ with_mg (fun m => pre_disconnect m sid ns) ;; _ <~ lift r ;;
+             send_packet c (Some eio) DISCONNECT fail_reason ns None
+           else send_packet c (Some eio) CONNECT_ERROR fail_reason ns None)
+          (set_mg (fun m => mgr_disconnect m sid ns))
+      else if always_connect c then ret tt
+      else send_packet c (Some eio) CONNECT (sid_dict sid) ns None
+  end.
+
+Lemma handle_connect_split c eio pn data :
+  handle_connect c eio pn data =
+  (s <~ getS ;;
+   osid <~ (if served c (ns_or_default pn) then
+              putS (mkSrv (mg s) (environ s) (binpkt s) (sessions s) (live s) (fresh s + 1)) ;;;
+              with_mg (fun m => mgr_connect m eio (ns_or_default pn) (sid_name (fresh s)))
+            else ret None) ;;
+   connect_rest c eio (ns_or_default pn) data (environ s) osid).
+Proof. reflexivity. Qed.
+
+Lemma reach_at_connect_rest c eio ns data envs osid s1 :
+  (forall sid, osid = Some sid -> below (fresh s1) sid) -> reach_at (connect_rest c eio ns data envs osid) s1.
+Proof.
+  intro Hb. destruct osid as [sid|]; cbn [connect_rest]; [|apply reach_send_packet].
+  specialize (Hb sid eq_refl).
+  apply reach_at_bind_star; [apply reach_if; [apply reach_send_packet|apply reach_ret]|].
+  intros _ s2 e2 _ Hst2.
+  apply reach_at_bind_star; [destruct (aget str_eqb envs eio); [apply reach_ret|apply reach_raise]|].
+  intros env s3 e3 _ Hst3.
+  apply reach_at_bind_star; [apply reach_connect_try|].
+  intros [success fail_reason] s4 e4 _ Hst4.
+  destruct (match success with Some v => pv_eqb v (PBool false) | None => false end).
+  - apply reach_at_finally; [|intros; apply reach_set_mg_disc].
+    destruct (always_connect c); [|apply reach_send_packet].
+    apply reach_at_bind.
+    + apply reach_at_with_mg. apply P_pre. right. eapply below_mono; [|exact Hb].
+      pose proof (star_fresh _ _ Hst2). pose proof (star_fresh _ _ Hst3). pose proof (star_fresh _ _ Hst4). lia.
+    + intros r s6 e6 _. apply reach_bind; [apply reach_lift|]. intro. apply reach_send_packet.
+  - apply reach_if; [apply reach_ret|apply reach_send_packet].
+Qed.
+
+(* a served CONNECT request consumes exactly... at least one id *)
+Lemma handle_connect_consumes c eio pn data s :
+  served c (ns_or_default pn) = true -> fresh s + 1 <= fresh (st (handle_connect c eio pn data s)).
+Proof.
+  intro Hsv. rewrite handle_connect_split. unfold st. rewrite bindM_getS, Hsv.
+  unfold bindM at 1. rewrite bindM_putS, with_mg_eq.
+  set (s1 := upd_mg _ _). set (osid := snd _).
+  assert (Hr : reach_at (connect_rest c eio (ns_or_default pn) data (environ s) osid) s1).
+  { apply reach_at_connect_rest. intros sid Hs. exists (fresh s). split; [cbn; lia|].
+    eapply mgr_connect_some. exact Hs. }
+  unfold reach_at, st in Hr. apply star_fresh in Hr.
+  destruct (connect_rest c eio (ns_or_default pn) data (environ s) osid s1) as [[s2 e2] r]. cbn [fst] in *.
+  change (fresh s1) with (fresh s + 1) in Hr. exact Hr.
+Qed.
+
+(* one engine.io message carrying a CONNECT request is handled by handle_connect *)
+Lemma step_connect c s eio payload tbl pn data :
+  is_live s eio = true -> connect_of c s eio payload tbl = Some (pn, data) ->
+  step c s (EioMessage eio payload tbl) =
+  (st (handle_connect c eio pn data s), snd (fst (handle_connect c eio pn data s))).
+Proof.
+  intros Hl Hco. unfold step, step_m. rewrite bindM_getS. unfold is_live in Hl. rewrite Hl.
+  unfold contain, handle_eio_message. rewrite bindM_getS.
+  unfold connect_of, classify in Hco.
+  destruct (aget str_eqb (binpkt s) eio); [discriminate|].
+  destruct (decode (table_loads tbl) payload) as [r|x]; [|discriminate].
+  destruct (type_is (rp r) CONNECT) eqn:Ht; [|discriminate].
+  destruct (uses_binary c); [|discriminate]. cbn [andb] in Hco. inversion Hco; subst; clear Hco.
+  rewrite bindM_lift_ok, Ht. unfold st.
+  destruct (handle_connect c eio (pns (rp r)) (pdata (rp r)) s) as [[s' e] res]. reflexivity.
+Qed.
+
+(* the session id a step announces: a CONNECT request for a served namespace *)
+Definition announces (c : cfg) (s : srv) (o : op) : option str :=
+  match o with
+  | EioMessage eio payload tbl =>
+      if is_live s eio then
+        match connect_of c s eio payload tbl with
+        | Some (pn, _) => if served c (ns_or_default pn) then Some (new_sid s) else None
+        | None => None
+        end
+      else None
+  | _ => None
+  end.
+Fixpoint announced (c : cfg) (s : srv) (ops : list op) : list str :=
+  match ops with
+  | [] => []
+  | o :: r => (match announces c s o with Some sid => [sid] | None => [] end)
+              ++ announced c (fst (step c s o)) r
+  end.
+
+Lemma announces_consumes c s o sid :
+  announces c s o = Some sid -> sid = sid_name (fresh s) /\ fresh s + 1 <= fresh (fst (step c s o)).
+Proof.
+  destruct o as [|eio payload tbl| | | | | | | | | |]; try discriminate. cbn [announces].
+  destruct (is_live s eio) eqn:Hl; [|discriminate].
+  destruct (connect_of c s eio payload tbl) as [[pn data]|] eqn:Hco; [|discriminate].
+  destruct (served c (ns_or_default pn)) eqn:Hsv; [|discriminate].
+  intro H; inversion H; subst. split; [reflexivity|].
+  rewrite (step_connect c s eio payload tbl pn data Hl Hco). cbn [fst].
+  apply handle_connect_consumes. exact Hsv.
+Qed.
+
+Theorem announced_fresh c ops : forall s,
+  (forall sid, In sid (announced c s ops) ->
+     exists k, sid = sid_name k /\ fresh s <= k < fresh (fst (run c s ops))) /\
+  NoDup (announced c s ops).
+Proof.
+  induction ops as [|o r IH]; intros s; [split; [intros ? []|constructor]|].
+  cbn [announced]. rewrite run_cons'. cbn [fst].
+  destruct (IH (fst (step c s o))) as [IH1 IH2].
+  pose proof (step_fresh_mono c s o) as Hm.
+  pose proof (run_fresh_mono c r (fst (step c s o))) as Hm2.
+  destruct (announces c s o) as [sid0|] eqn:Ha; cbn [app].
+  - destruct (announces_consumes _ _ _ _ Ha) as [He Hc]. split.
+    + intros sid [H|H]; [subst sid; exists (fresh s); split; [exact He|lia]|].
+      destruct (IH1 _ H) as (k & Hk & Hr). exists k. split; [exact Hk|lia].
+    + constructor; [|exact IH2]. intro Hin. destruct (IH1 _ Hin) as (k & Hk & Hr).
+      rewrite He in Hk. apply sid_name_inj in Hk. lia.
+  - split; [|exact IH2]. intros sid H. destruct (IH1 _ H) as (k & Hk & Hr). exists k. split; [exact Hk|lia].
+Qed.
+
+(* ------------------------------------------------------------------ *)
+(* transport loss: _handle_eio_disconnect over all namespaces          *)
+(* ------------------------------------------------------------------ *)
+Definition disc_chunk (c : cfg) (s : srv) (eio : str) (reason : pv) (n : str) : list eff :=
+  match sid_from_eio (mg s) eio n with
+  | Some sid => if is_connected (mg s) (Some sid) n
+                then fst (te_pure c ev_disconnect n [PStr sid; reason_or_client reason]) else []
+  | None => []
+  end.
+Definition agree (m m' : mgr) (n : str) : Prop :=
+  ns_rooms m n = ns_rooms m' n /\ aget str_eqb (pending m) n = aget str_eqb (pending m') n.
+
+Lemma agree_lookups m m' n : agree m m' n ->
+  (forall e, sid_from_eio m e n = sid_from_eio m' e n) /\
+  (forall o, is_connected m o n = is_connected m' o n) /\
+  (forall x, eio_from_sid m x n = eio_from_sid m' x n).
+Proof.
+  intros [H1 H2]. split; [|split].
+  - intro e. unfold sid_from_eio. rewrite !room_of_none, H1. reflexivity.
+  - intros [x|]; [|reflexivity]. unfold is_connected, is_pending. rewrite !room_of_none, H1, H2. reflexivity.
+  - intro x. unfold eio_from_sid. rewrite !room_of_none, H1. reflexivity.
+Qed.
+Lemma disc_chunk_agree c s s0 eio reason n : agree (mg s) (mg s0) n -> disc_chunk c s eio reason n = disc_chunk c s0 eio reason n.
+Proof.
+  intro H. destruct (agree_lookups _ _ _ H) as (H1 & H2 & _). unfold disc_chunk. rewrite H1.
+  destruct (sid_from_eio (mg s0) eio n); [rewrite H2|]; reflexivity.
+Qed.
+
+Lemma disc_state_pending_frame s sid n n' :
+  n <> n' -> aget str_eqb (pending (mg (disc_state s sid n))) n' = aget str_eqb (pending (mg s)) n'.
+Proof.
+  intro Hne. unfold disc_state. cbn [mg upd_mg]. unfold mgr_disconnect.
+  set (m0 := fst (pre_disconnect (mg s) sid n)).
+  assert (H0 : aget str_eqb (pending m0) n' = aget str_eqb (pending (mg s)) n').
+  { unfold m0. rewrite pre_disconnect_pending. apply saget_aset_other. exact Hne. }
+  destruct (ns_rooms m0 n) as [rm|]; [|exact H0].
+  set (names := map fst (filter _ rm)).
+  assert (H1 : pending (fold_left (fun m r => leave_room m sid n r) names m0) = pending m0).
+  { generalize m0. induction names as [|r names IH]; intro m; cbn [fold_left]; [reflexivity|].
+    rewrite IH. apply leave_room_pending. }
+  set (m1 := fold_left _ names m0) in *.
+  destruct (is_pending _ sid n); cbn [pending rooms callbacks]; [|rewrite H1; exact H0].
+  rewrite H1. destruct (aget str_eqb (pending m0) n) as [l0|].
+  - destruct (remove_first l0 sid).
+    + rewrite saget_adel_other by exact Hne. exact H0.
+    + rewrite saget_aset_other by exact Hne. exact H0.
+  - rewrite saget_adel_other by exact Hne. exact H0.
+Qed.
+
+Lemma forM_keep_cons {A} (f : A -> SM unit) x r first s :
+  forM_keep (x :: r) f first s =
+  (let first' := match first, snd (f x s) with None, Err e => Some e | _, _ => first end in
+   (st (forM_keep r f first' (st (f x s))),
+    snd (fst (f x s)) ++ snd (fst (forM_keep r f first' (st (f x s)))),
+    snd (forM_keep r f first' (st (f x s))))).
+Proof.
+  cbn [forM_keep]. unfold st. destruct (f x s) as [[s1 e1] res]. cbn [fst snd].
+  destruct (forM_keep r f _ s1) as [[s2 e2] out]. reflexivity.
+Qed.
+
+Definition same_fields (s' s : srv) : Prop :=
+  fresh s' = fresh s /\ environ s' = environ s /\ binpkt s' = binpkt s /\ sessions s' = sessions s /\ live s' = live s.
+Lemma same_fields_refl s : same_fields s s. Proof. repeat split. Qed.
+Lemma same_fields_trans a b d : same_fields a b -> same_fields b d -> same_fields a d.
+Proof. intros (A1 & A2 & A3 & A4 & A5) (B1 & B2 & B3 & B4 & B5). repeat split; congruence. Qed.
+
+(* one namespace *)
+Lemma handle_disconnect_chunk c eio reason s n :
+  has_actions c = false -> n <> [] -> MOK (mg s) ->
+  let r := handle_disconnect c eio (Some n) reason s in
+  snd (fst r) = disc_chunk c s eio reason n /\ MOK (mg (st r)) /\
+  (forall n', n <> n' -> agree (mg (st r)) (mg s) n') /\
+  (forall sid, sid_from_eio (mg s) eio n = Some sid -> is_connected (mg s) (Some sid) n = true ->
+               eio_from_sid (mg (st r)) sid n = None /\ is_connected (mg (st r)) (Some sid) n = false) /\
+  same_fields (st r) s.
+Proof.
+  intros Hna Hne Hm r. subst r.
+  assert (Hnd : ns_or_default (Some n) = n) by (destruct n; [contradiction|reflexivity]).
+  unfold disc_chunk.
+  destruct (sid_from_eio (mg s) eio n) as [sid|] eqn:Hs.
+  - destruct (is_connected (mg s) (Some sid) n) eqn:Hc.
+    + rewrite (handle_disconnect_eq c eio (Some n) reason s sid Hna) by (rewrite Hnd; assumption).
+      cbv zeta. rewrite Hnd. cbn [fst snd st].
+      destruct (disc_state_facts s sid n Hm) as (Hm' & Hc' & He' & _ & Hf' & _ & Hsame).
+      split; [reflexivity|]. split; [exact Hm'|]. split; [|split; [|exact Hsame]].
+      * intros n' Hn'. split; [apply Hf'; exact Hn'|apply disc_state_pending_frame; exact Hn'].
+      * intros sid' Hs' _. inversion Hs'; subst. split; assumption.
+    + rewrite handle_disconnect_noop by (rewrite Hnd, Hs; exact Hc). cbn [fst snd st].
+      split; [reflexivity|]. split; [exact Hm|]. split; [intros; split; reflexivity|].
+      split; [|apply same_fields_refl]. intros sid' Hs' Hc'. inversion Hs'; subst. congruence.
+  - rewrite handle_disconnect_noop by (rewrite Hnd, Hs; reflexivity). cbn [fst snd st].
+    split; [reflexivity|]. split; [exact Hm|]. split; [intros; split; reflexivity|].
+    split; [|apply same_fields_refl]. intros sid' Hs'. discriminate.
+Qed.
+
+Lemma eio_loop c eio reason s0 :
+  has_actions c = false ->
+  forall (l : list str) s first,
+    NoDup l -> (forall n, In n l -> n <> []) -> MOK (mg s) ->
+    (forall n, In n l -> agree (mg s) (mg s0) n) ->
+    let r := forM_keep l (fun n : str => handle_disconnect c eio (Some n) reason) first s in
+    snd (fst r) = flat_map (disc_chunk c s0 eio reason) l /\ MOK (mg (st r)) /\
+    (forall n, ~ In n l -> agree (mg (st r)) (mg s) n) /\
+    (forall n sid, In n l -> sid_from_eio (mg s0) eio n = Some sid -> is_connected (mg s0) (Some sid) n = true ->
+                   eio_from_sid (mg (st r)) sid n = None /\ is_connected (mg (st r)) (Some sid) n = false) /\
+    same_fields (st r) s.
+Proof.
+  intro Hna. induction l as [|n l IH]; intros s first Hnd Hne Hm Hag r; subst r.
+  - cbn [forM_keep ret st fst snd flat_map]. split; [reflexivity|]. split; [exact Hm|].
+    split; [intros; split; reflexivity|]. split; [intros n sid []|apply same_fields_refl].
+  - rewrite forM_keep_cons. cbv zeta. cbn [fst snd st flat_map].
+    inversion Hnd as [|? ? Hnot Hnd']; subst.
+    destruct (handle_disconnect_chunk c eio reason s n Hna (Hne n (or_introl eq_refl)) Hm) as (Hc1 & Hm1 & Hf1 & Hp1 & Hsf1).
+    set (s1 := st (handle_disconnect c eio (Some n) reason s)) in *.
+    match goal with |- context [forM_keep l _ ?ff s1] => set (first' := ff) end.
+    assert (Hag1 : forall n', In n' l -> agree (mg s1) (mg s0) n').
+    { intros n' Hin. assert (n <> n') by (intro; subst; contradiction).
+      destruct (Hf1 n' H) as [A B]. destruct (Hag n' (or_intror Hin)) as [A' B'].
+      split; [etransitivity; [exact A|exact A']|etransitivity; [exact B|exact B']]. }
+    destruct (IH s1 first' Hnd' (fun n' H => Hne n' (or_intror H)) Hm1 Hag1) as (Hc2 & Hm2 & Hf2 & Hp2 & Hrest).
+    fold (st (forM_keep l (fun n0 => handle_disconnect c eio (Some n0) reason) first' s1)) in *.
+    set (s2 := st (forM_keep l (fun n0 => handle_disconnect c eio (Some n0) reason) first' s1)) in *.
+    split; [rewrite <- (disc_chunk_agree c s s0 eio reason n (Hag n (or_introl eq_refl))); exact (f_equal2 (@app eff) Hc1 Hc2)|].
+    split; [exact Hm2|]. split; [|split].
+    + intros n' Hn'. assert (Hn1 : n <> n') by (intro; apply Hn'; left; assumption).
+      assert (Hn2 : ~ In n' l) by (intro; apply Hn'; right; assumption).
+      destruct (Hf2 n' Hn2) as [A B]. destruct (Hf1 n' Hn1) as [A' B'].
+      split; [etransitivity; [exact A|exact A']|etransitivity; [exact B|exact B']].
+    + intros n' sid [Heq|Hin] Hs Hcn.
+      * subst n'. destruct (agree_lookups _ _ _ (Hag n (or_introl eq_refl))) as (L1 & L2 & _).
+        rewrite <- L1 in Hs. rewrite <- L2 in Hcn. destruct (Hp1 sid Hs Hcn) as [E1 E2].
+        destruct (agree_lookups _ _ _ (Hf2 n Hnot)) as (_ & L2' & L3'). rewrite L2', L3'. split; assumption.
+      * apply (Hp2 n' sid Hin Hs Hcn).
+    + eapply same_fields_trans; [exact Hrest|exact Hsf1].
+Qed.
+
+Lemma forM_keep_ok {A} (f : A -> SM unit) l : forall first s, exists o, snd (forM_keep l f first s) = Ok o.
+Proof.
+  induction l as [|x l IH]; intros first s; [eexists; reflexivity|].
+  rewrite forM_keep_cons. cbv zeta. cbn [snd]. apply IH.
+Qed.
+
+Definition drop_eio (s : srv) (eio : str) : srv :=
+  mkSrv (mg s) (adel str_eqb (environ s) eio) (adel str_eqb (binpkt s) eio) (sessions s) (live s) (fresh s).
+
+Lemma handle_eio_disconnect_run c eio reason s :
+  let R := forM_keep (get_namespaces (mg s)) (fun n : str => handle_disconnect c eio (Some n) reason) None s in
+  exists res, handle_eio_disconnect c eio reason s = (drop_eio (st R) eio, snd (fst R), res).
+Proof.
+  intro R. unfold handle_eio_disconnect. rewrite bindM_getS. unfold bindM at 1. fold R.
+  destruct (forM_keep_ok (fun n : str => handle_disconnect c eio (Some n) reason) (get_namespaces (mg s)) None s) as [o Ho].
+  fold R in Ho. unfold st. destruct R as [[s1 e1] out]. cbn [fst snd] in *. subst out.
+  rewrite bindM_modify. destruct o; cbn [raise ret]; rewrite ?app_nil_r; eexists; reflexivity.
+Qed.
+
+Theorem eio_disconnect_effects c eio reason s :
+  has_actions c = false -> Inv s ->
+  let r := handle_eio_disconnect c eio reason s in
+  snd (fst r) = flat_map (disc_chunk c s eio reason) (get_namespaces (mg s)) /\
+  MOK (mg (st r)) /\
+  (forall n sid, sid_from_eio (mg s) eio n = Some sid -> is_connected (mg s) (Some sid) n = true ->
+                 eio_from_sid (mg (st r)) sid n = None /\ is_connected (mg (st r)) (Some sid) n = false) /\
+  fresh (st r) = fresh s /\ live (st r) = live s.
+Proof.
+  intros Hna (Hm & _ & _ & Hnn). cbv zeta.
+  destruct (handle_eio_disconnect_run c eio reason s) as [res Hr]. cbv zeta in Hr. rewrite Hr. clear Hr.
+  destruct Hm as [Hnd Hok].
+  destruct (eio_loop c eio reason s Hna (get_namespaces (mg s)) s None Hnd Hnn (conj Hnd Hok)
+                     (fun n _ => conj eq_refl eq_refl)) as (H1 & H2 & H3 & H4 & Hsf).
+  destruct Hsf as (H5 & H6 & H7 & H8 & H9).
+  cbn [fst snd st drop_eio mg fresh live].
+  split; [exact H1|]. split; [exact H2|]. split; [|split; assumption].
+  intros n sid Hs Hc. apply (H4 n sid); try assumption.
+  unfold sid_from_eio in Hs. rewrite room_of_none in Hs.
+  destruct (ns_rooms (mg s) n) eqn:E; [|discriminate]. eapply ns_rooms_key. exact E.
+Qed.
+
+(* ------------------------------------------------------------------ *)
+(* Examples (non-vacuity) on the reachable state Ex.s0                 *)
+(* ------------------------------------------------------------------ *)
+Module LcEx.
+  Import Ex.
+  Open Scope string_scope.
+  Definition nope := s2l "/nope".
+  Definition cR := cfg0 false (RaisesRefused [PStr (s2l "no"); PInt 7]).
+  Definition cRa := cfg0 true (RaisesRefused [PStr (s2l "no"); PInt 7]).
+  Definition cF := cfg0 false (Returns (PBool false)).
+  Definition sR := fst (run cR srv_init [EioConnect e1 env1]).
+  Definition tclose := PStr (s2l "transport close").
+
+  Example s0_Inv : Inv s0 /\ Inv sR.
+  Proof. split; apply reachable_Inv. Qed.
+
+  Example error_args_ex :
+    error_args [PStr (s2l "no"); PInt 7] = PDict [(k_message, PStr (s2l "no")); (k_data, PInt 7)] /\
+    error_args [PInt 1; PInt 2; PInt 3] = PDict [(k_message, PStr (s2l "1")); (k_data, PTuple [PInt 2; PInt 3])].
+  Proof. vm_compute. split; reflexivity. Qed.
+
+  (* (i) not served / already connected *)
+  Example connect_not_served_ex :
+    served c nope = false /\
+    handle_connect c e2 (Some nope) PNone s0 =
+    (s0, [Out e2 (PStr (s2l "4/nope,""Unable to connect"""))], Ok tt).
+  Proof. vm_compute. split; reflexivity. Qed.
+  Example connect_duplicate_ex :
+    served c slash = true /\ sid_from_eio (mg s0) e1 slash = Some (sid_name 0) /\
+    handle_connect c e1 None PNone s0 = (bump s0, [Out e1 (PStr (s2l "4""Unable to connect"""))], Ok tt).
+  Proof. vm_compute. repeat split; reflexivity. Qed.
+
+  (* (ii) accepted: no handler at all; class-based handler with a truthy / falsy auth payload *)
+  Example connect_accept_no_handler_ex :
+    hid_for c ev_connect plain = None /\ sid_from_eio (mg s0) e1 plain = None /\
+    handle_connect c e1 (Some plain) PNone s0 =
+    (conn_state s0 e1 plain, [Out e1 (PStr (s2l "0/plain,{""sid"":""S4""}"))], Ok tt) /\
+    sid_from_eio (mg (conn_state s0 e1 plain)) e1 plain = Some (sid_name 4).
+  Proof. vm_compute. repeat split; reflexivity. Qed.
+  Example connect_accept_handler_ex :
+    responsible c ev_connect chat [] = Some (Some 5, []) /\
+    snd (fst (handle_connect c e2 (Some chat) auth s0)) =
+      [Call 5 [S 4; env1; auth]; Out e2 (PStr (s2l "0/chat,{""sid"":""S4""}"))] /\
+    snd (fst (handle_connect c e2 (Some chat) (PDict []) s0)) =
+      [Call 5 [S 4; env1; PNone]; Out e2 (PStr (s2l "0/chat,{""sid"":""S4""}"))] /\
+    is_connected (mg (fst (fst (handle_connect c e2 (Some chat) auth s0)))) (Some (sid_name 4)) chat = true.
+  Proof. vm_compute. repeat split; reflexivity. Qed.
+
+  (* refused: ConnectionRefusedError("no", 7), without and with always_connect; False *)
+  Example connect_refused_ex :
+    refusal_of (RaisesRefused [PStr (s2l "no"); PInt 7]) = Some (error_args [PStr (s2l "no"); PInt 7]) /\
+    handle_connect cR e1 None PNone sR =
+      (bump sR, [Call 1 [S 0; env1]; Out e1 (PStr (s2l "4{""message"":""no"",""data"":7}"))], Ok tt) /\
+    handle_connect cRa e1 None PNone sR =
+      (bump sR, [Out e1 (PStr (s2l "0{""sid"":""S0""}")); Call 1 [S 0; env1];
+                 Out e1 (PStr (s2l "1{""message"":""no"",""data"":7}"))], Ok tt) /\
+    handle_connect cF e1 None PNone sR =
+      (bump sR, [Call 1 [S 0; env1]; Out e1 (PStr (s2l "4{""message"":""Connection rejected by server""}"))], Ok tt).
+  Proof. vm_compute. repeat split; reflexivity. Qed.
+
+  (* disconnect: packet, API (legacy one-argument handler of the class-based namespace), transport loss *)
+  Example disconnect_once_ex :
+    is_connected (mg s0) (Some (sid_name 0)) slash = true /\
+    snd (fst (handle_disconnect c e1 None r_client_disconnect s0)) = [Call 2 [S 0; r_client_disconnect]] /\
+    is_connected (mg (fst (fst (handle_disconnect c e1 None r_client_disconnect s0)))) (Some (sid_name 0)) slash = false /\
+    sid_from_eio (mg (fst (fst (handle_disconnect c e1 None r_client_disconnect s0)))) e1 chat = Some (sid_name 2) /\
+    snd (fst (api_disconnect c (sid_name 2) (Some chat) s0)) = [Out e1 (PStr (s2l "1/chat,")); Call 6 [S 2]] /\
+    snd (fst (handle_eio_disconnect c e1 tclose s0)) = [Call 2 [S 0; tclose]; Call 6 [S 2]] /\
+    all_sids (mg (fst (fst (handle_eio_disconnect c e1 tclose s0)))) =
+      [(slash, sid_name 1, e2); (plain, sid_name 3, e2)].
+  Proof. vm_compute. repeat split; reflexivity. Qed.
+  Example no_second_call_ex :
+    let s1 := fst (fst (handle_disconnect c e1 None r_client_disconnect s0)) in
+    handle_disconnect c e1 None r_client_disconnect s1 = (s1, [], Ok tt) /\
+    api_disconnect c (sid_name 0) None s1 = (s1, [], Ok tt) /\
+    snd (fst (handle_eio_disconnect c e1 tclose s1)) = [Call 6 [S 2]].
+  Proof. vm_compute. repeat split; reflexivity. Qed.
+
+  Example announced_ex :
+    announced c srv_init ops0 = [sid_name 0; sid_name 1; sid_name 2; sid_name 3] /\ fresh s0 = 4.
+  Proof. vm_compute. split; reflexivity. Qed.
+End LcEx.
+
+(* ------------------------------------------------------------------ *)
+(* executable form: the model's own run passes the connect part of the *)
+(* C04 checker                                                         *)
+(* ------------------------------------------------------------------ *)
+Lemma unable_frames_ok c ns : exists f, unable_frames c ns = Ok [PStr f].
+Proof.
+  unfold unable_frames, frames_of, ctor, unable.
+  replace (uses_binary c && _) with false by (destruct (uses_binary c); reflexivity).
+  cbn. eexists. reflexivity.
+Qed.
+Lemma default_refusal_frames_ok c t ns :
+  t = CONNECT_ERROR \/ t = DISCONNECT -> exists f, frames_of c t (error_args []) ns None = Ok [PStr f].
+Proof.
+  intros [->| ->]; unfold frames_of, ctor;
+    (replace (uses_binary c && _) with false by (destruct (uses_binary c); reflexivity));
+    cbn; eexists; reflexivity.
+Qed.
+Lemma frames_eqb_refl fr : frames_eqb fr (Ok fr) = true.
+Proof. apply (list_eqb_eq pv_eqb pv_eqb_eq). reflexivity. Qed.
+
+Lemma sp_effs_live s eio fr : is_live s eio = true -> sp_effs s eio (Ok fr) = map (Out eio) fr.
+Proof. intro H. unfold sp_effs. rewrite H. reflexivity. Qed.
+Lemma outs_of_map_out eio fr : outs_of eio (map (Out eio) fr) = fr.
+Proof. induction fr as [|p fr IH]; [reflexivity|]. cbn [map outs_of flat_map]. rewrite str_eqb_refl. cbn [app]. f_equal. exact IH. Qed.
+Lemma calls_of_map_out eio fr : calls_of (map (Out eio) fr) = [].
+Proof. induction fr as [|p fr IH]; [reflexivity|exact IH]. Qed.
+Lemma eios_map_out eio fr : forallb (str_eqb eio) (out_eios (map (Out eio) fr)) = true.
+Proof. induction fr as [|p fr IH]; [reflexivity|]. cbn [map out_eios flat_map app forallb]. rewrite str_eqb_refl. exact IH. Qed.
+
+Lemma calls_of_cons_call h a l : calls_of (Call h a :: l) = (h, a) :: calls_of l.
+Proof. reflexivity. Qed.
+Lemma outs_of_cons_call e h a l : outs_of e (Call h a :: l) = outs_of e l.
+Proof. reflexivity. Qed.
+Lemma out_eios_cons_call h a l : out_eios (Call h a :: l) = out_eios l.
+Proof. reflexivity. Qed.
+Lemma pvl_refl l : list_eqb pv_eqb l l = true.
+Proof. apply (list_eqb_eq pv_eqb pv_eqb_eq). reflexivity. Qed.
+
+(* CONNECT_ERROR and DISCONNECT packets with the same payload are encodable together *)
+Lemma refusal_frames_both c why ns fr :
+  frames_of c CONNECT_ERROR why ns None = Ok fr -> exists fr', frames_of c DISCONNECT why ns None = Ok fr'.
+Proof.
+  unfold frames_of, ctor. destruct (uses_binary c && has_bytes why); [discriminate|].
+  cbn [bind]. unfold encode. cbn [ptype pdata pns pid].
+  change ((CONNECT_ERROR =? BINARY_EVENT)%Z || (CONNECT_ERROR =? BINARY_ACK)%Z) with false.
+  change ((DISCONNECT =? BINARY_EVENT)%Z || (DISCONNECT =? BINARY_ACK)%Z) with false. cbv iota.
+  destruct (match why with PNone => Ok [] | _ => json_dumps why end) as [js|x]; [|discriminate].
+  intros _. cbn. eexists. reflexivity.
+Qed.
+
+Theorem model_passes_c04_connect c s eio payload tbl pn data env :
+  has_actions c = false -> Inv s -> is_live s eio = true ->
+  connect_of c s eio payload tbl = Some (pn, data) ->
+  aget str_eqb (environ s) eio = Some env ->
+  let o := EioMessage eio payload tbl in
+  c04_connect c s (fst (step c s o)) eio pn data (snd (step c s o)) = true.
+Proof.
+  intros Hna HI Hl Hco Henv o. subst o.
+  rewrite (step_connect c s eio payload tbl pn data Hl Hco). cbn [fst snd].
+  unfold c04_connect. set (ns := ns_or_default pn) in *.
+  change (frames_of c CONNECT_ERROR (PStr (s2l "Unable to connect")) ns None) with (unable_frames c ns).
+  destruct (unable_frames_ok c ns) as [fu Hfu].
+  destruct (accept_frames_ok c ns (new_sid s)) as [fa Hfa].
+  destruct (served c ns) eqn:Hsv; cbn [negb orb].
+  2:{ (* not served *)
+      rewrite (connect_not_served c eio pn data s Hsv). fold ns. cbn [fst snd st].
+      change (frames_of c CONNECT_ERROR unable ns None) with (unable_frames c ns).
+      rewrite Hfu, (sp_effs_live _ _ _ Hl).
+      unfold no_calls. rewrite calls_of_map_out, outs_of_map_out, eios_map_out, frames_eqb_refl. reflexivity. }
+  destruct (sid_from_eio (mg s) eio ns) as [s'|] eqn:Hs.
+  { (* already connected *)
+    rewrite (connect_duplicate c eio pn data s HI Hsv) by (fold ns; rewrite Hs; discriminate).
+    fold ns. cbn [fst snd st]. rewrite Hfu, (sp_effs_live _ _ _ Hl).
+    unfold no_calls. rewrite calls_of_map_out, outs_of_map_out, eios_map_out, frames_eqb_refl. reflexivity. }
+  (* the manager accepts *)
+  rewrite Henv. fold (new_sid s). set (sid := new_sid s) in *.
+  destruct (conn_state_facts eio pn s HI Hs) as (_ & Hm1 & _ & He1 & _).
+  fold ns sid in He1.
+  fold (accept_frames c ns sid). rewrite Hfa.
+  destruct (hid_for c ev_connect ns) as [h|] eqn:Hh.
+  2:{ rewrite (connect_accept_no_handler c eio pn data s env Hna HI Hsv Hs Henv Hh). fold ns sid.
+      cbn [fst snd st]. rewrite Hfa, (sp_effs_live _ _ _ Hl).
+      unfold no_calls. rewrite calls_of_map_out, outs_of_map_out, frames_eqb_refl.
+      rewrite (is_member_true _ _ _ _ He1). reflexivity. }
+  destruct (aget N.eqb (behav c) h) as [b|] eqn:Hb; [|reflexivity].
+  assert (Hresp : exists pre, responsible c ev_connect ns [] = Some (Some h, pre)).
+  { unfold hid_for in Hh. destruct (responsible c ev_connect ns []) as [[[h'|] pre]|]; try discriminate.
+    inversion Hh; subst. eauto. }
+  destruct Hresp as [pre Hresp].
+  assert (Hfull : forall l, match responsible c ev_connect ns l with Some (_, a) => a | None => l end = pre ++ l).
+  { intro l. rewrite responsible_prefix, Hresp. reflexivity. }
+  rewrite !Hfull.
+  assert (Hfits : forall l : list pv, match h_arity b with Some k => Nat.eqb k (List.length l) | None => true end = negb (arity_bad b (List.length l))).
+  { intro l. unfold arity_bad. destruct (h_arity b); [rewrite negb_involutive|]; reflexivity. }
+  rewrite !Hfits.
+  assert (Hargs : (if truthy data then pre ++ [PStr sid; env] ++ [data]
+                   else if negb (arity_bad b (List.length (pre ++ [PStr sid; env]))) then pre ++ [PStr sid; env]
+                        else pre ++ [PStr sid; env] ++ [PNone]) = connect_args sid env data b pre).
+  { unfold connect_args. destruct (truthy data); [reflexivity|]. destruct (arity_bad b _); reflexivity. }
+  rewrite Hargs. set (args := connect_args sid env data b pre) in *.
+  destruct (arity_bad b (List.length args)) eqn:Hfit; [reflexivity|]. cbn [negb].
+  set (run := handle_connect c eio pn data s).
+  assert (Hrefused : forall why, refusal_of (h_outcome b) = Some why ->
+    match calls_of (snd (fst run)) with
+    | [(h', a)] => N.eqb h h' && list_eqb pv_eqb a args
+    | _ => false end &&
+    forallb (str_eqb eio) (out_eios (snd (fst run))) &&
+    ((if match frames_of c CONNECT_ERROR why ns None with Err _ => true | Ok _ => false end then true
+      else if always_connect c
+           then frames_eqb (outs_of eio (snd (fst run))) (app_res (Ok [PStr fa]) (frames_of c DISCONNECT why ns None))
+           else frames_eqb (outs_of eio (snd (fst run))) (frames_of c CONNECT_ERROR why ns None)) &&
+     negb (is_member (mg (st run)) sid)) = true).
+  { intros why Hw.
+    destruct (connect_refused_state c eio pn data s env Hna HI Hsv Hs Henv h pre b Hresp Hb Hfit why
+                (st run) (snd (fst run)) (snd run) Hw) as (_ & Hmem & _).
+    { unfold st, run. symmetry. apply triple_eta. }
+    fold sid in Hmem. rewrite Hmem. cbn [negb]. rewrite andb_true_r.
+    unfold run. rewrite (connect_refused c eio pn data s env Hna HI Hsv Hs Henv h pre b Hresp Hb Hfit why Hw).
+    fold ns sid args. rewrite Hfa.
+    destruct (always_connect c); cbn [fst snd].
+    - rewrite (sp_effs_live _ _ _ Hl), calls_of_app, calls_of_map_out, out_eios_app, outs_of_app, outs_of_map_out.
+      cbn [app]. rewrite calls_of_cons_call, sp_effs_calls, outs_of_cons_call, out_eios_cons_call.
+      rewrite N.eqb_refl, pvl_refl. cbn [andb].
+      rewrite forallb_app, eios_map_out, sp_effs_eios. cbn [andb].
+      destruct (frames_of c CONNECT_ERROR why ns None) as [fr|x] eqn:Hce; [|reflexivity].
+      destruct (refusal_frames_both c why ns fr Hce) as [fr' Hd]. rewrite Hd.
+      rewrite sp_effs_outs, Hl. cbn [app_res bind]. apply frames_eqb_refl.
+    - rewrite calls_of_cons_call, sp_effs_calls, outs_of_cons_call, out_eios_cons_call.
+      rewrite N.eqb_refl, pvl_refl, sp_effs_eios. cbn [andb].
+      destruct (frames_of c CONNECT_ERROR why ns None) as [fr|x] eqn:Hce; [|reflexivity].
+      rewrite sp_effs_outs, Hl. apply frames_eqb_refl. }
+  destruct (h_outcome b) as [v|ra|x] eqn:Ho; [| |reflexivity].
+  - destruct (pv_eqb v (PBool false)) eqn:Ev.
+    + apply Hrefused. cbn [refusal_of]. rewrite Ev. reflexivity.
+    + assert (Hv : v <> PBool false) by (intro; subst; rewrite pv_eqb_refl in Ev; discriminate).
+      unfold run. rewrite (connect_accept_handler c eio pn data s env Hna HI Hsv Hs Henv h pre b Hresp Hb Hfit v Ho Hv).
+      fold ns sid args. cbn [fst snd st]. rewrite Hfa, (sp_effs_live _ _ _ Hl).
+      rewrite (is_member_true _ _ _ _ He1), andb_true_r.
+      destruct (always_connect c).
+      * rewrite calls_of_app, calls_of_map_out, out_eios_app, outs_of_app, outs_of_map_out. cbn [app].
+        rewrite calls_of_cons_call, outs_of_cons_call. cbn [calls_of outs_of flat_map].
+        rewrite N.eqb_refl, pvl_refl, forallb_app, eios_map_out. cbn. rewrite str_eqb_refl. reflexivity.
+      * rewrite calls_of_cons_call, calls_of_map_out, outs_of_cons_call, out_eios_cons_call, outs_of_map_out, eios_map_out.
+        rewrite N.eqb_refl, pvl_refl. cbn [andb]. apply frames_eqb_refl.
+  - apply Hrefused. reflexivity.
+Qed.
+
+(* the chunk of a transport-loss effect list that belongs to one namespace *)
+Lemma disc_chunk_returns c s eio reason ns sid h pre b v :
+  sid_from_eio (mg s) eio ns = Some sid -> is_connected (mg s) (Some sid) ns = true ->
+  responsible c ev_disconnect ns [] = Some (Some h, pre) -> aget N.eqb (behav c) h = Some b ->
+  h_outcome b = Returns v ->
+  arity_bad b (List.length (disc_args sid (reason_or_client reason) b pre)) = false ->
+  disc_chunk c s eio reason ns = [Call h (disc_args sid (reason_or_client reason) b pre)].
+Proof.
+  intros Hs Hc Hr Hb Ho Har. unfold disc_chunk. rewrite Hs, Hc.
+  rewrite (te_disconnect_returns c ns sid _ h pre b v Hr Hb Har Ho). reflexivity.
+Qed.
+Lemma disc_chunk_not_connected c s eio reason ns :
+  is_connected (mg s) (sid_from_eio (mg s) eio ns) ns = false -> disc_chunk c s eio reason ns = [].
+Proof. unfold disc_chunk. destruct (sid_from_eio (mg s) eio ns); [intros ->|]; reflexivity. Qed.
+
+Corollary other_namespaces_unaffected s sid ns ns' e :
+  MOK (mg s) -> ns <> ns' ->
+  sid_from_eio (mg (disc_state s sid ns)) e ns' = sid_from_eio (mg s) e ns' /\
+  ns_rooms (mg (disc_state s sid ns)) ns' = ns_rooms (mg s) ns'.
+Proof.
+  intros Hm Hne. destruct (disc_state_facts s sid ns Hm) as (_ & _ & _ & _ & H1 & H2 & _).
+  split; [apply H2; exact Hne|apply H1; exact Hne].
+Qed.
+
+(* the full per-step checker c04_step is NOT passed by every configuration: when one handler
+   id serves both the disconnect event and an ordinary event of a namespace, its invocation
+   for the ordinary event is counted as a disconnect-handler run of a client that stays
+   connected.  (The harness allocates distinct ids; this is a domain condition of the checker.) *)
+Module Refute.
+  Import Ex.
+  Open Scope string_scope.
+  Definition cShared : cfg :=
+    mkCfg [(slash, [(s2l "connect", 1%N); (s2l "disconnect", 2%N); (s2l "msg", 2%N)])] []
+          [(1%N, mkBehav (Some 2%nat) [] (Returns PNone)); (2%N, mkBehav None [] (Returns PNone))]
+          (Some [slash]) false true.
+  Definition sS := fst (run cShared srv_init [EioConnect e1 env1; EioMessage e1 (PStr (s2l "0")) []]).
+  Definition mS := EioMessage e1 (PStr (s2l "2[""msg"",1]"))
+                              [(s2l "[""msg"",1]", Ok (PList [PStr (s2l "msg"); PInt 1]))].
+End Refute.
+Theorem c04_step_shared_handler_refuted :
+  exists c s o, Inv s /\ has_actions c = false /\ c04_step c s o (snd (step c s o)) = false.
+Proof.
+  exists Refute.cShared, Refute.sS, Refute.mS. split; [apply reachable_Inv|]. vm_compute. split; reflexivity.
+Qed.
+
+(* ------------------------------------------------------------------ *)
+(* the ns_members of a namespace (its "everybody" room) through a refusal *)
+(* ------------------------------------------------------------------ *)
+Definition ns_members (m : mgr) (ns : str) : bidict :=
+  match room_of m ns PNone with Some b => b | None => [] end.
+
+Lemma members_keys m ns : MOK m -> NoDup (map fst (ns_members m ns)).
+Proof.
+  intro Hm. unfold ns_members. rewrite room_of_none. destruct (ns_rooms m ns) as [rm|] eqn:Hns; [|constructor].
+  destruct (none_bd rm) as [b|] eqn:Hb; [|constructor].
+  destruct (MOK_ns _ _ _ Hm Hns) as [_ Hk]. exact (proj1 (Hk _ Hb)).
+Qed.
+
+Lemma adel_idem (b : bidict) sid : NoDup (map fst b) -> adel str_eqb (adel str_eqb b sid) sid = adel str_eqb b sid.
+Proof.
+  intro H. apply adel_notin. apply saget_none. apply saget_adel_same. exact H.
+Qed.
+
+Lemma rm_leave_none_exact rm sid rm' :
+  rm_ok1 rm -> rm_leave rm sid PNone = Some rm' ->
+  exists b, none_bd rm = Some b /\
+            none_bd rm' = match adel str_eqb b sid with [] => None | x :: r => Some (x :: r) end.
+Proof.
+  intros [Hno _] H. unfold rm_leave in H. change (aget room_eqb rm PNone) with (none_bd rm) in H.
+  destruct (none_bd rm) as [b|] eqn:Hb; [|discriminate]. exists b. split; [reflexivity|].
+  destruct (bd_get b sid); [|discriminate]. inversion H; subst; clear H.
+  destruct (adel str_eqb b sid) as [|x r]; [apply none_bd_adel_none; exact Hno|apply none_bd_aset_none].
+Qed.
+
+Lemma leave_room_members m sid ns room :
+  MOK m ->
+  ns_members (leave_room m sid ns room) ns =
+  if pv_eqb room PNone then adel str_eqb (ns_members m ns) sid else ns_members m ns.
+Proof.
+  intro Hm. destruct (pv_eqb room PNone) eqn:Er.
+  - apply pv_eqb_eq in Er. subst room. rewrite leave_room_unfold. unfold ns_members at 2. rewrite room_of_none.
+    destruct (ns_rooms m ns) as [rm|] eqn:Hns; [|unfold ns_members; rewrite room_of_none, Hns; reflexivity].
+    destruct (rm_leave rm sid PNone) as [rm'|] eqn:Hl.
+    + destruct (rm_leave_none_exact _ _ _ (MOK_ns _ _ _ Hm Hns) Hl) as (b & Hb & Hb').
+      rewrite Hb. unfold ns_members. rewrite room_of_none, ns_rooms_set_ns_same by exact Hm.
+      destruct rm' as [|y rm'].
+      * unfold none_bd in Hb'. cbn [aget] in Hb'. destruct (adel str_eqb b sid); [reflexivity|discriminate].
+      * rewrite Hb'. destruct (adel str_eqb b sid); reflexivity.
+    + unfold ns_members. rewrite room_of_none, Hns. unfold rm_leave in Hl.
+      change (aget room_eqb rm PNone) with (none_bd rm) in Hl.
+      destruct (none_bd rm) as [b|]; [|reflexivity].
+      destruct (bd_get b sid) eqn:Hg; [discriminate|]. symmetry. apply adel_notin. apply saget_none. exact Hg.
+  - assert (Hne : room <> PNone) by (intro; subst; rewrite pv_eqb_refl in Er; discriminate).
+    destruct (leave_room_spec m sid ns room Hm) as (_ & _ & _ & _ & Ho & _). unfold ns_members. rewrite (Ho Hne). reflexivity.
+Qed.
+
+Lemma fold_leave_members sid ns names : forall m,
+  MOK m ->
+  ns_members (fold_left (fun m r => leave_room m sid ns r) names m) ns =
+  if existsb (fun r => pv_eqb r PNone) names then adel str_eqb (ns_members m ns) sid else ns_members m ns.
+Proof.
+  induction names as [|r names IH]; intros m Hm; cbn [fold_left existsb]; [reflexivity|].
+  destruct (leave_room_spec m sid ns r Hm) as (Hm1 & _).
+  rewrite (IH _ Hm1), (leave_room_members m sid ns r Hm).
+  destruct (pv_eqb r PNone); cbn [orb]; [|reflexivity].
+  destruct (existsb _ names); [apply adel_idem; apply members_keys; exact Hm|reflexivity].
+Qed.
+
+Lemma mgr_disconnect_members m sid ns :
+  MOK m -> ns_members (mgr_disconnect m sid ns) ns = adel str_eqb (ns_members m ns) sid.
+Proof.
+  intro Hm. unfold mgr_disconnect. destruct (ns_rooms m ns) as [rm|] eqn:Hns.
+  2:{ unfold ns_members. rewrite room_of_none, Hns. reflexivity. }
+  fold (disc_names rm sid).
+  assert (Hfold := fold_leave_members sid ns (disc_names rm sid) m Hm).
+  set (m1 := fold_left _ (disc_names rm sid) m) in *.
+  assert (Hmem : forall m', rooms m' = rooms m1 -> ns_members m' ns = ns_members m1 ns).
+  { intros m' Hr. unfold ns_members, room_of, ns_rooms. rewrite Hr. reflexivity. }
+  assert (Hres : ns_members m1 ns = adel str_eqb (ns_members m ns) sid).
+  { rewrite Hfold. destruct (existsb (fun r => pv_eqb r PNone) (disc_names rm sid)) eqn:E; [reflexivity|].
+    symmetry. apply adel_notin. apply saget_none.
+    unfold ns_members. rewrite room_of_none, Hns. destruct (none_bd rm) as [b|] eqn:Hb; [|reflexivity].
+    destruct (bd_get b sid) as [e|] eqn:Hg; [|exact Hg]. exfalso.
+    pose proof (disc_names_none rm sid b e Hb Hg) as Hin.
+    assert (existsb (fun r => pv_eqb r PNone) (disc_names rm sid) = true).
+    { apply existsb_exists. exists PNone. split; [exact Hin|reflexivity]. }
+    congruence. }
+  destruct (is_pending _ sid ns); rewrite Hmem by reflexivity; exact Hres.
+Qed.
+
+(* a refused connection leaves every namespace with exactly the ns_members it had *)
+Theorem connect_refused_members c eio pn data s env :
+  has_actions c = false -> Inv s -> served c (ns_or_default pn) = true ->
+  sid_from_eio (mg s) eio (ns_or_default pn) = None -> aget str_eqb (environ s) eio = Some env ->
+  forall h pre b,
+  responsible c ev_connect (ns_or_default pn) [] = Some (Some h, pre) -> aget N.eqb (behav c) h = Some b ->
+  arity_bad b (List.length (connect_args (new_sid s) env data b pre)) = false ->
+  forall why, refusal_of (h_outcome b) = Some why ->
+  forall ns', ns_members (mg (st (handle_connect c eio pn data s))) ns' = ns_members (mg s) ns'.
+Proof.
+  intros Hna HI Hsv Hs Henv h pre b Hresp Hb Hfit why Hw ns'.
+  set (ns := ns_or_default pn) in *.
+  destruct (str_eqb ns ns') eqn:E.
+  2:{ assert (Hne : ns <> ns') by (intro; subst; rewrite str_eqb_refl in E; discriminate).
+      destruct (connect_refused_state c eio pn data s env Hna HI Hsv Hs Henv h pre b Hresp Hb Hfit why
+                  (st (handle_connect c eio pn data s)) (snd (fst (handle_connect c eio pn data s)))
+                  (snd (handle_connect c eio pn data s)) Hw) as (_ & _ & _ & _ & _ & Hf & _).
+      { unfold st. symmetry. apply triple_eta. }
+      unfold ns_members, room_of. fold ns in Hf. rewrite (Hf _ Hne). reflexivity. }
+  apply str_eqb_eq in E. subst ns'.
+  rewrite (connect_refused c eio pn data s env Hna HI Hsv Hs Henv h pre b Hresp Hb Hfit why Hw). fold ns.
+  set (sid := new_sid s). set (s1 := conn_state s eio ns).
+  destruct (conn_state_facts eio pn s HI Hs) as (_ & Hm1 & _ & _ & _).
+  fold ns s1 in Hm1.
+  assert (H1 : ns_members (mg s1) ns = aset str_eqb (ns_members (mg s) ns) sid eio).
+  { destruct (mgr_connect_new (mg s) eio ns sid Hs) as (_ & Hroom & _).
+    unfold ns_members at 1. unfold s1, conn_state. cbn [mg upd_mg]. fold sid. rewrite Hroom.
+    unfold ns_members, pm_b, pm_rm. rewrite room_of_none. destruct (ns_rooms (mg s) ns); reflexivity. }
+  assert (H2 : adel str_eqb (aset str_eqb (ns_members (mg s) ns) sid eio) sid = ns_members (mg s) ns).
+  { apply adel_aset_new; [|apply str_eqb_refl].
+    pose proof (fresh_no_eio s HI ns) as H0. unfold eio_from_sid in H0. unfold ns_members.
+    destruct (room_of (mg s) ns PNone); [exact H0|reflexivity]. }
+  destruct (always_connect c); cbn [st fst mg upd_mg].
+  - rewrite mgr_disconnect_members by (apply MOK_pre_disconnect; exact Hm1).
+    assert (Hpre : ns_members (fst (pre_disconnect (mg s1) sid ns)) ns = ns_members (mg s1) ns).
+    { unfold ns_members, room_of, ns_rooms. rewrite pre_disconnect_rooms. reflexivity. }
+    rewrite Hpre, H1. exact H2.
+  - rewrite mgr_disconnect_members by exact Hm1. rewrite H1. exact H2.
+Qed.
+
+(* ------------------------------------------------------------------ *)
+(* after a terminating operation, every further one is a no-op         *)
+(* ------------------------------------------------------------------ *)
+Lemma nodup_snd_inj {A B} (l : list (A * B)) a a' v :
+  NoDup (map snd l) -> In (a, v) l -> In (a', v) l -> a = a'.
+Proof.
+  induction l as [|[k w] l IH]; cbn [map snd]; intros Hnd H1 H2; [destruct H1|].
+  inversion Hnd as [|? ? Hnot Hnd']; subst.
+  destruct H1 as [H1|H1], H2 as [H2|H2].
+  - congruence.
+  - inversion H1; subst. exfalso. apply Hnot. apply (in_map snd) in H2. exact H2.
+  - inversion H2; subst. exfalso. apply Hnot. apply (in_map snd) in H1. exact H1.
+  - eapply IH; eassumption.
+Qed.
+Lemma bd_inv_adel_unique b sid eio : bd_ok b -> bd_inv b eio = Some sid -> bd_inv (adel str_eqb b sid) eio = None.
+Proof.
+  intros [Hk Hv] Hi. destruct (bd_inv (adel str_eqb b sid) eio) as [x|] eqn:E; [|reflexivity]. exfalso.
+  apply bd_inv_in in E. pose proof (in_adel _ _ _ _ E) as E'. apply bd_inv_in in Hi.
+  assert (x = sid) by (eapply nodup_snd_inj; eassumption). subst x.
+  pose proof (saget_adel_same b sid Hk) as Hn. apply saget_none in Hn. apply Hn.
+  apply (in_map fst) in E. exact E.
+Qed.
+Lemma sid_from_eio_members m eio ns : sid_from_eio m eio ns = bd_inv (ns_members m ns) eio.
+Proof. unfold sid_from_eio, ns_members. destruct (room_of m ns PNone); reflexivity. Qed.
+Lemma members_ok m ns : MOK m -> bd_ok (ns_members m ns).
+Proof.
+  intro Hm. unfold ns_members. rewrite room_of_none. destruct (ns_rooms m ns) as [rm|] eqn:Hns; [|apply bd_ok_nil].
+  destruct (none_bd rm) as [b|] eqn:Hb; [|apply bd_ok_nil].
+  destruct (MOK_ns _ _ _ Hm Hns) as [_ Hk]. exact (Hk _ Hb).
+Qed.
+
+Theorem disconnect_then_noop c s sid eio pn :
+  MOK (mg s) -> sid_from_eio (mg s) eio (ns_or_default pn) = Some sid ->
+  let s' := disc_state s sid (ns_or_default pn) in
+  sid_from_eio (mg s') eio (ns_or_default pn) = None /\
+  (forall reason, handle_disconnect c eio pn reason s' = (s', [], Ok tt)) /\
+  api_disconnect c sid pn s' = (s', [], Ok tt) /\
+  (forall reason, disc_chunk c s' eio reason (ns_or_default pn) = []).
+Proof.
+  intros Hm Hs s'. set (ns := ns_or_default pn) in *.
+  assert (Hnone : sid_from_eio (mg s') eio ns = None).
+  { rewrite sid_from_eio_members. unfold s', disc_state. cbn [mg upd_mg].
+    rewrite mgr_disconnect_members by (apply MOK_pre_disconnect; exact Hm).
+    assert (Hpre : ns_members (fst (pre_disconnect (mg s) sid ns)) ns = ns_members (mg s) ns).
+    { unfold ns_members, room_of, ns_rooms. rewrite pre_disconnect_rooms. reflexivity. }
+    rewrite Hpre. apply bd_inv_adel_unique; [apply members_ok; exact Hm|].
+    rewrite <- sid_from_eio_members. exact Hs. }
+  destruct (disc_state_facts s sid ns Hm) as (_ & Hc & _).
+  split; [exact Hnone|]. split; [|split].
+  - intro reason. apply handle_disconnect_noop. fold ns. rewrite Hnone. reflexivity.
+  - apply api_disconnect_noop. exact Hc.
+  - intro reason. apply disc_chunk_not_connected. rewrite Hnone. reflexivity.
 Qed.
